@@ -5,6 +5,26 @@ proposal's ``sample`` is replaced by a stub that returns every tuple of the (sma
 space in turn, and the probability-weighted sum of the returned values - and of their autograd
 gradients - is compared with the exact expectation and its exact gradient computed in pure
 Python (vf/oracles/c19_exact.py). No sampling noise is involved anywhere in this module.
+
+Generator classes added in the extension round (oracles unchanged):
+
+* sizes - the batch dimension, the number of categories, the number of Metropolis-Hastings
+  samples, the vector size / batch of fixed-cardinality sampling, the vocabulary size and the
+  batch of the combinatorial functions are taken from the thresholds 15..2049 (``THRESH``);
+  parameters, tables and proposals are then *rules* (a few integers) expanded
+  deterministically by ``_materialize`` - a pure function of the case.  Batch elements are
+  independent problems: every element still sees its whole sample space exactly once, through
+  a per-element rotation of the enumeration order (``rot``).
+* memory layouts - the proposal's samples, the values returned by f and the control variate,
+  the parameters of the relaxed distributions, the conditioning values and the count tensors are
+  also handed over as transposed, offset (slice of a larger tensor) or expanded (stride 0) views.
+* values - logits of magnitude 16 / 30 (60 for the relaxed Bernoulli), i.e. probabilities that
+  round to exactly 0 or 1 in float32.
+* call patterns - one estimator object called for every sample tuple (instead of a fresh one
+  per call), a Metropolis-Hastings estimator called twice, a fixed-cardinality distribution
+  sampled / expanded / enumerated repeatedly.
+* size_grid - a deterministic list with one case per threshold and dimension for the check
+  functions of the generated sub-checks (Hypothesis re-uses few distinct sizes per run).
 """
 from __future__ import annotations
 
@@ -20,6 +40,108 @@ from ..oracles import c19_exact as ex
 
 TWO24 = 1 << 24
 KINDS = ["bern_joint", "bern_batch", "cat_index", "cat_onehot"]
+# sizes that cross typical implementation thresholds (block sizes, special paths)
+THRESH = [15, 16, 17, 31, 32, 33, 63, 64, 65, 127, 128, 129, 255, 256, 257, 1023, 1024, 1025, 2049]
+LAYOUTS = ["contig", "transposed", "offset"]
+
+
+_K = st.integers(0, 1 << 16)  # drawn FIRST in every strategy that uses _thresh (see there)
+
+
+def _thresh(k, limit, lo=0):
+    """The threshold selected by the integer k (drawn with _K as the very first choice of the case).
+
+    Hypothesis often completes a random prefix of choices with the simplest values for all later ones, and
+    sampled_from / small ranges lean to their first elements: a size drawn late collapsed onto the smallest
+    thresholds for whole runs (seed 12345).  Drawn first, and scrambled, k spreads over the list; k = 0 is still
+    the smallest size, so shrinking works."""
+    xs = [x for x in THRESH if lo <= x <= limit]
+    xs = xs + [x for x in xs if x >= 1023]
+    return st.just(xs[(k * 40503 + k // 7) % len(xs)])
+
+
+def _size_class(n):
+    return "size_ge_1023" if n >= 1023 else "size_ge_127" if n >= 127 else "size_15_65"
+
+
+# ------------------------------------------------------------------ rules: big inputs from a few integers
+
+
+def _grid(k, q=4, lo=-2, hi=2):
+    """The k-th value (cyclically) of the dyadic grid {lo, lo + 1/q, ..., hi}."""
+    n = int(round((hi - lo) * q)) + 1
+    return lo + (k % n) / q
+
+
+def _rule_rows(rule, rows, cols, lo=-2, hi=2):
+    a, c, d = rule["rule"]
+    return [[_grid(a * r + c * i + d + (r * i) % 3 + (r // 7), 4, lo, hi) for i in range(cols)] for r in range(rows)]
+
+
+def _is_rule(x):
+    return isinstance(x, dict) and "rule" in x
+
+
+def _materialize(case):
+    """Expand the rules of a case (logits, q_logits, f, cv, proposals ...) into the explicit lists that the
+    small cases carry; a pure function of the case.  Cases without rules are returned unchanged."""
+    if not any(_is_rule(v) for v in case.values()):
+        return case
+    case = dict(case)
+    kind, B = case.get("kind"), case["B"]
+    size = case.get("size", 1)
+    S = _nspace(kind, size) if kind in KINDS else None
+    for key in ("logits", "q_logits"):
+        if _is_rule(case.get(key)):
+            rows = _rule_rows(case[key], B, 1 if kind == "bern_batch" else size)
+            case[key] = [r[0] for r in rows] if kind == "bern_batch" else rows
+    if _is_rule(case.get("f")):
+        case["f"] = _rule_rows(case["f"], B, S)
+    if _is_rule(case.get("cv")):
+        if case["cv"].get("const"):
+            base = _rule_rows(case["cv"], B, 1)
+            off = [[r[0]] * S for r in base]
+        else:
+            off = _rule_rows(case["cv"], B, S)
+        if case.get("is_log"):
+            # log space: c <= f pointwise (see the strategy of direct_exact)
+            if case["cv"].get("const"):
+                case["cv"] = [[min(case["f"][b]) - abs(off[b][0])] * S for b in range(B)]
+            else:
+                case["cv"] = [[case["f"][b][s_] - abs(off[b][s_]) for s_ in range(S)] for b in range(B)]
+        else:
+            case["cv"] = off
+    return case
+
+
+def _relayout(x, layout):
+    """Same values as ``x`` (>= 2-D), as a transposed (dims 0 and 1 swapped in memory) or offset view."""
+    import torch
+
+    if layout in (None, "contig") or x.dim() < 2:
+        return x
+    if layout == "transposed":
+        return x.transpose(0, 1).contiguous().transpose(0, 1)
+    if layout == "offset":
+        big = torch.zeros((x.shape[0] + 2, x.shape[1] + 1) + tuple(x.shape[2:]), dtype=x.dtype)
+        big = big + 3 if x.dtype.is_floating_point else big
+        view = big[1:x.shape[0] + 1, 1:]
+        view.copy_(x)
+        return view
+    raise AssertionError(layout)
+
+
+def _relayout_grad(x, layout):
+    """Differentiable variant for the values returned by f / the control variate (2-D)."""
+    import torch
+
+    if layout in (None, "contig") or x.dim() < 2:
+        return x
+    if layout == "transposed":
+        return x.t().contiguous().t()
+    big = torch.cat([torch.zeros_like(x[:1]) + 7, x, torch.zeros_like(x[:1]) - 7], 0)
+    big = torch.cat([torch.zeros_like(big[:, :1]) + 5, big], 1)
+    return big[1:x.shape[0] + 1, 1:]
 
 
 # ------------------------------------------------------------------ building blocks
@@ -66,16 +188,12 @@ def _points_tensor(kind, size, dtype):
     return torch.eye(size, dtype=dtype)
 
 
-def _sample_for(points, idx_rows, B):
+def _sample_for(points, idx_rows, B, layout=None):
     """idx_rows: list (mc) of point indices, or list (mc) of lists (B) of point indices."""
     import torch
 
-    rows = []
-    for r in idx_rows:
-        if isinstance(r, int):
-            r = [r] * B
-        rows.append(torch.stack([points[i] for i in r], 0))
-    return torch.stack(rows, 0)  # (mc, B, *event)
+    idx = torch.tensor([[r] * B if isinstance(r, int) else list(r) for r in idx_rows], dtype=torch.long)  # (mc, B)
+    return _relayout(points[idx], layout)  # (mc, B, *event)
 
 
 def _index_of(kind, size, b):
@@ -92,14 +210,16 @@ def _index_of(kind, size, b):
     return b.argmax(-1)
 
 
-def _table_func(tab, kind, size, calls=None):
-    """f(b)[m, n] = tab[n, index(b[m, n])]; tab is a (B, S) tensor (possibly requiring grad)."""
+def _table_func(tab, kind, size, calls=None, out_layout=None):
+    """f(b)[m, n] = tab[n, index(b[m, n])]; tab is a (B, S) tensor (possibly requiring grad).
+    ``out_layout``: the returned (mc, B) tensor is a transposed / offset view instead of contiguous."""
 
     def func(b):
         idx = _index_of(kind, size, b)  # (mc, B)
         if calls is not None:
             calls.append(tuple(idx.shape))
-        return tab.unsqueeze(0).expand(idx.shape[0], -1, -1).gather(2, idx.unsqueeze(-1)).squeeze(-1)
+        out = tab.unsqueeze(0).expand(idx.shape[0], -1, -1).gather(2, idx.unsqueeze(-1)).squeeze(-1)
+        return _relayout_grad(out, out_layout)
 
     return func
 
@@ -129,8 +249,11 @@ def _stub_sample(dist, queue, log):
     dist.sample = sample
 
 
-def _logits_strategy(kind, B, size):
+def _logits_strategy(kind, B, size, extreme=False):
     val = st.one_of(dyadic(4, -2, 2), dyadic(4, -2, 2), st.sampled_from([0.0, -3.0, 3.0]))
+    if extreme:
+        # probabilities that round to exactly 0 or 1 in float32
+        val = st.one_of(st.sampled_from([-30.0, -16.0, 16.0, 30.0]), val)  # first: Hypothesis leans to the first branch
     if kind == "bern_batch":
         return st.lists(val, min_size=B, max_size=B)
     return st.lists(st.lists(val, min_size=size, max_size=size), min_size=B, max_size=B)
@@ -153,6 +276,74 @@ def _space(draw, kinds=KINDS):
     else:
         size = draw(st.integers(2, 4))
     return kind, B, size
+
+
+@st.composite
+def _big_space(draw, tier, k, kinds=KINDS, s_limit=None, whats=("B", "B", "S")):
+    """(kind, B, size, what): the batch ("B") or the sample space ("S") taken from THRESH; mc is 1 for "S"."""
+    thorough = tier == "thorough"
+    what = draw(st.sampled_from(list(whats)))
+    kind = draw(st.sampled_from(kinds))
+    if what == "S" and kind == "bern_batch":
+        kind = "cat_index" if "cat_index" in kinds else kinds[-1]
+    if what == "B":
+        B = draw(_thresh(k, 1025 if thorough else 257))
+        size = 1 if kind == "bern_batch" else draw(st.integers(1, 2)) if kind == "bern_joint" else draw(st.integers(2, 3))
+    else:
+        B = draw(st.integers(1, 2))
+        if kind == "bern_joint":
+            size = draw(st.integers(4, 6 if thorough else 5))  # 16 .. 64 joint configurations
+        else:
+            size = draw(_thresh(k, s_limit or (257 if thorough else 65)))
+    return kind, B, size, what
+
+
+def _rule():
+    return st.fixed_dictionaries({"rule": st.tuples(st.integers(0, 20), st.integers(0, 20), st.integers(0, 40)).map(list)})
+
+
+@st.composite
+def _call_extras(draw, mc, S, big=None):
+    """Enumeration order per batch element, memory layouts of samples / function values, estimator reuse."""
+    out = {}
+    if big == "B" or draw(st.integers(0, 3)) == 0:
+        out["rot"] = [draw(st.integers(0 if big != "B" else 1, max(S - 1, 1))) for _ in range(mc)]
+    lay = draw(st.sampled_from(["contig", "contig"] + LAYOUTS[1:]))
+    if lay != "contig":
+        out["sample_layout"] = lay
+    lay = draw(st.sampled_from(["contig", "contig"] + LAYOUTS[1:]))
+    if lay != "contig":
+        out["f_layout"] = lay
+    if draw(st.integers(0, 2)) == 0:
+        out["reuse"] = True
+    return out
+
+
+def _rows_for(case, tup, B, S):
+    """Point index of every batch element for every Monte-Carlo sample of the tuple: element b enumerates its
+    sample space in an order rotated by rot[m] * b, so that batch elements do not move in lockstep."""
+    rot = case.get("rot")
+    if not rot:
+        return [[s] * B for s in tup]
+    return [[(s + rot[m % len(rot)] * b) % S for b in range(B)] for m, s in enumerate(tup)]
+
+
+def _extra_classes(case, classes, big_size=None):
+    if case.get("rot") and any(case["rot"]):
+        classes.append("per_element_rotation")
+    if case.get("sample_layout"):
+        classes.append("samples_" + case["sample_layout"])
+    if case.get("f_layout"):
+        classes.append("f_values_" + case["f_layout"])
+    if case.get("reuse"):
+        classes.append("estimator_reused")
+    if case.get("big"):
+        classes.append("big_" + case["big"])
+        classes.append(_size_class(big_size))
+    rows = case["logits"] if isinstance(case.get("logits"), list) else []
+    flat = [x for r in rows for x in (r if isinstance(r, list) else [r])]
+    if any(abs(x) >= 16 for x in flat):
+        classes.append("extreme_logits")
 
 
 def _row(case, b):
@@ -194,13 +385,26 @@ def _compare(case, what, got, exp, scale):
 def _direct_strategy(tier):
     @st.composite
     def build(draw):
+        k = draw(_K)
+        if draw(st.integers(0, 5)) == 0:
+            kind, B, size, what = draw(_big_space(tier, k))
+            S = _nspace(kind, size)
+            is_log = draw(st.booleans())
+            mc = 1 if what == "S" else draw(st.sampled_from([1, 2]))
+            case = {"kind": kind, "B": B, "size": size, "is_log": is_log, "mc": mc, "big": what,
+                    "dtype": draw(st.sampled_from(["float32", "float32", "float64"])),
+                    "logits": draw(_rule()), "f": draw(_rule())}
+            cvk = draw(st.sampled_from(["none", "table", "const"]))
+            case["cv"] = None if cvk == "none" else dict(draw(_rule()), const=cvk == "const")
+            case.update(draw(_call_extras(mc, S, what)))
+            return case
         kind, B, size = draw(_space())
         S = _nspace(kind, size)
         is_log = draw(st.booleans())
         case = {"kind": kind, "B": B, "size": size, "is_log": is_log,
                 "mc": draw(st.sampled_from([1, 2, 2] if S <= 8 else [1, 2])),
                 "dtype": draw(st.sampled_from(["float32", "float32", "float64"])),
-                "logits": draw(_logits_strategy(kind, B, size)),
+                "logits": draw(_logits_strategy(kind, B, size, extreme=draw(st.integers(0, 3)) == 0)),
                 "f": draw(_table_strategy(B, S))}
         if tier == "thorough" and S <= 4 and draw(st.integers(0, 4)) == 0:
             case["mc"] = 3
@@ -223,6 +427,7 @@ def _direct_strategy(tier):
                 case["cv"] = [[case["f"][b][s] - abs(off[b][s]) for s in range(S)] for b in range(B)]
         else:
             case["cv"] = draw(_table_strategy(B, S)) if cvk == "table" else [[draw(dyadic(4, -2, 2))] * S for _ in range(B)]
+        case.update(draw(_call_extras(case["mc"], S)))
         return case
 
     return build()
@@ -243,32 +448,33 @@ def _flat(x):
 def _accumulate(case, run_one, nprop_params):
     """Probability-weighted sums of value and gradients over all mc-tuples of the sample space.
 
-    run_one(tuple) -> (value tensor (B,), [grad tensors...]); weights are products of the
-    *proposal's* point probabilities of each batch element."""
+    run_one(rows) -> (value tensor (B,), [grad tensors...]) where rows[m][b] is the point handed to batch
+    element b as its m-th sample; weights are products of the *proposal's* point probabilities of each batch
+    element.  Every element sees every tuple of its own sample space exactly once (``_rows_for``)."""
     kind, B, size = case["kind"], case["B"], case["size"]
     S = _nspace(kind, size)
     Q = [ex.point_probs(kind, size, case[nprop_params][b]) for b in range(B)]
     Ev = [0.0] * B
     Eg = None
     for tup in ex.tuples(S, case["mc"]):
-        val, grads = run_one(tup)
+        rows = _rows_for(case, tup, B, S)
+        val, grads = run_one(rows)
         # the statement is about values: a leading singleton dimension (DirectEstimator in log space
         # returns (1,) + batch_shape although the documentation says batch_shape) is tolerated here
         require(val.numel() == B, "estimate must have one value per batch element", list(val.shape), [B])
-        val = val.reshape(-1)
+        vals = val.reshape(-1).tolist()
+        glists = [g.reshape(B, -1).tolist() for g in grads]
+        if Eg is None:
+            Eg = [[[0.0] * len(gl[b]) for b in range(B)] for gl in glists]
         for b in range(B):
             w = 1.0
-            for s in tup:
-                w *= Q[b][s]
-            Ev[b] += w * float(val[b])
-            if Eg is None:
-                Eg = [[None] * B for _ in grads]
-            for k, g in enumerate(grads):
-                row = [float(x) for x in g[b].reshape(-1)]
-                if Eg[k][b] is None:
-                    Eg[k][b] = [0.0] * len(row)
-                for i, x in enumerate(row):
-                    Eg[k][b][i] += w * x
+            for r in rows:
+                w *= Q[b][r[b]]
+            Ev[b] += w * vals[b]
+            for k, gl in enumerate(glists):
+                acc = Eg[k][b]
+                for i, x in enumerate(gl[b]):
+                    acc[i] += w * x
     return Ev, Eg
 
 
@@ -294,31 +500,39 @@ def _check_against_exact(case, name, Ev, Eg_theta, Eg_tab, tab_lin, scale, targe
 
 
 @subcheck("C19", "direct_exact", _direct_strategy, 500, 12000,
-          doc="DirectEstimator over 1-3 joint Bernoulli variables / a Bernoulli batch / one categorical (index or one-hot), f and control variate = generated tables, differentiable cv mean, mc 1-2 (3), log and linear space: sum over all sample tuples of P(tuple)*estimate and of P(tuple)*grad == exact expectation and exact gradient (pure Python)",
-          required_classes=["cv_nonconstant", "mc_2", "is_log", "no_cv", "kind_bern_joint", "kind_cat_index", "kind_cat_onehot", "kind_bern_batch"])
+          doc="DirectEstimator over 1-3 joint Bernoulli variables / a Bernoulli batch / one categorical (index or one-hot), f and control variate = generated tables, differentiable cv mean, mc 1-2 (3), log and linear space: sum over all sample tuples of P(tuple)*estimate and of P(tuple)*grad == exact expectation and exact gradient (pure Python); 1 case in 6: batch of 15..257 (1025) elements or 15..65 (257) categories / 4-5 (6) joint variables, parameters and tables expanded from rules; samples and function values also as transposed / offset views; per-element rotation of the enumeration order; one estimator object reused for all tuples; logits of magnitude 16 / 30",
+          required_classes=["cv_nonconstant", "mc_2", "is_log", "no_cv", "kind_bern_joint", "kind_cat_index", "kind_cat_onehot", "kind_bern_batch",
+                            "big_B", "big_S", "per_element_rotation", "samples_transposed", "samples_offset",
+                            "f_values_transposed", "f_values_offset", "estimator_reused", "extreme_logits"])
 def _direct_check(case):
     import torch
     from pydrobert.torch.estimators import DirectEstimator
 
+    case = _materialize(case)
     kind, B, size, mc, is_log = case["kind"], case["B"], case["size"], case["mc"], case["is_log"]
     dt = _dt(case)
     theta = torch.tensor(case["logits"], dtype=dt, requires_grad=True)
     tab = _tab_tensor(case["f"], dt).requires_grad_()
     points = _points_tensor(kind, size, dt)
     dist = _make_dist(kind, theta)
-    func = _table_func(tab, kind, size)
+    func = _table_func(tab, kind, size, out_layout=case.get("f_layout"))
     ctab = None if case["cv"] is None else _tab_tensor(case["cv"], dt)
-    cvf = None if ctab is None else _table_func(ctab, kind, size)
+    cvf = None if ctab is None else _table_func(ctab, kind, size, out_layout=case.get("f_layout"))
     queue, log = [], []
     _stub_sample(dist, queue, log)
 
-    def run_one(tup):
-        queue.append(_sample_for(points, list(tup), B))
+    def make():
         cv_mean = None
         if ctab is not None:
             P = _point_probs_torch(kind, size, theta)
             cv_mean = (P * ctab.exp()).sum(-1).log() if is_log else (P * ctab).sum(-1)
-        est = DirectEstimator(dist, func, mc, cvf, cv_mean, is_log)
+        return DirectEstimator(dist, func, mc, cvf, cv_mean, is_log)
+
+    shared = make() if case.get("reuse") else None  # call pattern: one estimator object for every tuple
+
+    def run_one(rows):
+        queue.append(_sample_for(points, rows, B, case.get("sample_layout")))
+        est = shared if shared is not None else make()
         v = est()
         require(log[-1] == (mc,), "estimator must request mc_samples samples", log[-1], [mc])
         val = v.exp() if is_log else v
@@ -341,6 +555,7 @@ def _direct_check(case):
         classes.append("cv_nonconstant")
     else:
         classes.append("cv_constant")
+    _extra_classes(case, classes, B if case.get("big") == "B" else _nspace(kind, size))
     return Info(nontrivial=_nonconstant(case["f"]) and _nonuniform(case), classes=classes)
 
 
@@ -350,6 +565,20 @@ def _direct_check(case):
 def _is_strategy(tier):
     @st.composite
     def build(draw):
+        k = draw(_K)
+        if draw(st.integers(0, 5)) == 0:
+            kind, B, size, what = draw(_big_space(tier, k))
+            S = _nspace(kind, size)
+            mc = 1 if what == "S" else draw(st.sampled_from([1, 2]))
+            case = {"kind": kind, "B": B, "size": size, "is_log": draw(st.booleans()), "mc": mc, "big": what,
+                    "dtype": draw(st.sampled_from(["float32", "float32", "float64"])),
+                    "logits": draw(_rule()), "q_logits": draw(_rule()), "f": draw(_rule()),
+                    "log_scale": draw(st.sampled_from([0.0, 0.0, -1.0, 0.5])),
+                    "same_object": draw(st.sampled_from([False, False, False, True]))}
+            if case["same_object"]:
+                case["q_logits"] = case["logits"]
+            case.update(draw(_call_extras(mc, S, what)))
+            return case
         kind, B, size = draw(_space())
         S = _nspace(kind, size)
         case = {"kind": kind, "B": B, "size": size, "is_log": draw(st.booleans()),
@@ -363,18 +592,22 @@ def _is_strategy(tier):
         case["same_object"] = draw(st.sampled_from([False, False, False, True]))
         if case["same_object"]:
             case["q_logits"] = case["logits"]
+        case.update(draw(_call_extras(case["mc"], S)))
         return case
 
     return build()
 
 
 @subcheck("C19", "importance_exact", _is_strategy, 500, 12000,
-          doc="ImportanceSamplingEstimator (not self-normalised), proposal Q != target P (both generated, Q dominating), optionally unnormalised P: sum over all Q-tuples of Q(tuple)*estimate and *grad == sum_b P(b) f(b) and its exact gradient w.r.t. P's parameters; gradient w.r.t. Q's parameters is 0 in every call (documented)",
-          required_classes=["proposal_differs", "mc_2", "is_log", "unnormalised", "target_object_is_proposal"])
+          doc="ImportanceSamplingEstimator (not self-normalised), proposal Q != target P (both generated, Q dominating), optionally unnormalised P: sum over all Q-tuples of Q(tuple)*estimate and *grad == sum_b P(b) f(b) and its exact gradient w.r.t. P's parameters; gradient w.r.t. Q's parameters is 0 in every call (documented); 1 case in 6 with a batch of 15..257 (1025) elements or 15..65 (257) categories from rules; samples / function values as transposed / offset views; per-element rotation; estimator object reused",
+          required_classes=["proposal_differs", "mc_2", "is_log", "unnormalised", "target_object_is_proposal",
+                            "big_B", "big_S", "per_element_rotation", "samples_transposed", "samples_offset",
+                            "f_values_transposed", "f_values_offset", "estimator_reused"])
 def _is_check(case):
     import torch
     from pydrobert.torch.estimators import ImportanceSamplingEstimator
 
+    case = _materialize(case)
     kind, B, size, mc, is_log = case["kind"], case["B"], case["size"], case["mc"], case["is_log"]
     dt = _dt(case)
     theta = torch.tensor(case["logits"], dtype=dt, requires_grad=True)
@@ -391,13 +624,14 @@ def _is_check(case):
             return target.log_prob(value) + k
 
     density = target if k == 0.0 else Shifted()
-    func = _table_func(tab, kind, size)
+    func = _table_func(tab, kind, size, out_layout=case.get("f_layout"))
     queue, log = [], []
     _stub_sample(proposal, queue, log)
+    shared = ImportanceSamplingEstimator(proposal, func, mc, density, False, is_log) if case.get("reuse") else None
 
-    def run_one(tup):
-        queue.append(_sample_for(points, list(tup), B))
-        est = ImportanceSamplingEstimator(proposal, func, mc, density, False, is_log)
+    def run_one(rows):
+        queue.append(_sample_for(points, rows, B, case.get("sample_layout")))
+        est = shared if shared is not None else ImportanceSamplingEstimator(proposal, func, mc, density, False, is_log)
         v = est()
         val = v.exp() if is_log else v
         grads = torch.autograd.grad(val.sum(), [theta, tab, phi], allow_unused=True, retain_graph=True)
@@ -424,6 +658,7 @@ def _is_check(case):
         classes.append("unnormalised")
     if same:
         classes.append("target_object_is_proposal")
+    _extra_classes(case, classes, B if case.get("big") == "B" else _nspace(kind, size))
     return Info(nontrivial=_nonconstant(case["f"]) and _nonuniform(case) and (same or case["logits"] != case["q_logits"]), classes=classes)
 
 
@@ -433,7 +668,9 @@ def _is_check(case):
 def _enum_strategy(tier):
     @st.composite
     def build(draw):
-        if draw(st.integers(0, 3)) == 0:
+        k = draw(_K)
+        pick = draw(st.integers(0, 7))
+        if pick == 0:
             total = draw(st.integers(0, 4))
             given = draw(st.integers(0, total))
             out = draw(st.sampled_from([total, total, total + 1])) or 1
@@ -441,27 +678,51 @@ def _enum_strategy(tier):
             return {"kind": "srswor", "B": B, "total": total, "given": given, "out": out,
                     "batched": draw(st.booleans()), "is_log": draw(st.booleans()),
                     "dtype": "float32", "f": draw(_table_strategy(B, 2 ** out))}
+        if pick == 1:
+            # larger fixed-cardinality supports (C(10, 5) = 252 vectors picked out of 2^10), table from a rule
+            total = draw(st.integers(5, 10 if tier == "thorough" else 9))
+            given = draw(st.integers(0, total))
+            return {"kind": "srswor", "B": 1, "total": total, "given": given, "out": total + draw(st.integers(0, 1)),
+                    "batched": draw(st.booleans()), "is_log": draw(st.booleans()), "dtype": "float32", "f": draw(_rule()),
+                    "big": "S"}
+        if pick in (2, 3):
+            # single call: the number of categories may reach 1025 (2049), the batch 257 (1025)
+            kind, B, size, what = draw(_big_space(tier, k, ["bern_batch", "cat_index", "cat_onehot"],
+                                                  s_limit=2049 if tier == "thorough" else 1025, whats=("B", "S", "S")))
+            case = {"kind": kind, "B": B, "size": size, "is_log": draw(st.booleans()), "mc": 1, "big": what,
+                    "dtype": draw(st.sampled_from(["float32", "float64"])), "logits": draw(_rule()), "f": draw(_rule())}
+            lay = draw(st.sampled_from(LAYOUTS))
+            if lay != "contig":
+                case["f_layout"] = lay
+            return case
         kind, B, size = draw(_space(["bern_batch", "cat_index", "cat_onehot"]))
         S = _nspace(kind, size)
         case = {"kind": kind, "B": B, "size": size, "is_log": draw(st.booleans()), "mc": 1,
                 "dtype": draw(st.sampled_from(["float32", "float64"])),
-                "logits": draw(_logits_strategy(kind, B, size)), "f": draw(_table_strategy(B, S))}
+                "logits": draw(_logits_strategy(kind, B, size, extreme=draw(st.integers(0, 3)) == 0)), "f": draw(_table_strategy(B, S))}
         if case["is_log"] and draw(st.integers(0, 3)) == 0:
             # f = 0 at some (not all) points of each row: the logarithm of a zero estimate has no gradient
             zero = draw(st.lists(st.lists(st.booleans(), min_size=S, max_size=S), min_size=B, max_size=B))
             case["f"] = [["-inf" if (z and i) else x for i, (x, z) in enumerate(zip(r, zr))] for r, zr in zip(case["f"], zero)]
+        lay = draw(st.sampled_from(["contig", "contig"] + LAYOUTS[1:]))
+        if lay != "contig":
+            case["f_layout"] = lay
         return case
 
     return build()
 
 
 @subcheck("C19", "enumerate_exact", _enum_strategy, 400, 8000,
-          doc="EnumerateEstimator over Bernoulli batches, categoricals (index / one-hot) and fixed-cardinality vectors with f = generated table: value and gradients (parameters, f's table) == exact expectation / gradient",
-          required_classes=["kind_srswor", "kind_bern_batch", "kind_cat_index", "kind_cat_onehot", "is_log"])
+          doc="EnumerateEstimator over Bernoulli batches, categoricals (index / one-hot) and fixed-cardinality vectors with f = generated table: value and gradients (parameters, f's table) == exact expectation / gradient; 1 case in 4 with 15..1025 (2049) categories or a batch of 15..257 (1025) from rules, 1 in 8 fixed-cardinality vectors of size 5..9 (10); function values also as transposed / offset views; logits of magnitude 16 / 30",
+          required_classes=["kind_srswor", "kind_bern_batch", "kind_cat_index", "kind_cat_onehot", "is_log",
+                            "big_B", "big_S", "f_values_transposed", "f_values_offset", "extreme_logits"])
 def _enum_check(case):
     import torch
     from pydrobert.torch.estimators import EnumerateEstimator
 
+    if case["kind"] == "srswor" and _is_rule(case.get("f")):
+        case = dict(case, f=_rule_rows(case["f"], case["B"], 2 ** case["out"]))
+    case = _materialize(case)
     kind, B, is_log = case["kind"], case["B"], case["is_log"]
     dt = _dt(case)
     tab = _tab_tensor(case["f"], dt).requires_grad_()
@@ -494,11 +755,13 @@ def _enum_check(case):
                 eg = (1.0 / len(idxs)) * (tab_lin[b][s] if is_log else 1.0) if s in idxs else 0.0
                 _compare(case, "EnumerateEstimator over fixed-cardinality vectors: gradient w.r.t. table entry %d" % s,
                          float(gtab[b][s]), eg, scale)
+        if case.get("big"):
+            classes += ["big_S"] + ([_size_class(len(idxs))] if len(idxs) >= 15 else [])
         return Info(nontrivial=_nonconstant(case["f"]) and len(idxs) > 1, classes=classes + ["out_gt_total"] if out > T else classes)
     size = case["size"]
     theta = torch.tensor(case["logits"], dtype=dt, requires_grad=True)
     dist = _make_dist(kind, theta)
-    func = _table_func(tab, kind, size)
+    func = _table_func(tab, kind, size, out_layout=case.get("f_layout"))
     v = EnumerateEstimator(dist, func, is_log)()
     require(tuple(v.shape) == (B,), "estimate must have the proposal's batch shape", list(v.shape), [B])
     val = v.exp() if is_log else v
@@ -509,6 +772,7 @@ def _enum_check(case):
     Eg = [[float(x) for x in gth[b].reshape(-1)] for b in range(B)]
     Et = [[float(x) for x in gtab[b]] for b in range(B)]
     _check_against_exact(case, "EnumerateEstimator", Ev, Eg, Et, tab_lin, scale)
+    _extra_classes(case, classes, B if case.get("big") == "B" else _nspace(kind, size))
     return Info(nontrivial=_nonconstant(case["f"]) and _nonuniform(case), classes=classes + [case["dtype"]])
 
 
@@ -560,26 +824,44 @@ def _poly(h):
 def _relaxed_strategy(tier):
     @st.composite
     def build(draw):
+        k = draw(_K)
         B = draw(st.integers(1, 3))
         est = draw(st.sampled_from(["st", "relax", "relax", "rebar"]))
         is_log = draw(st.booleans())
+        big = draw(st.integers(0, 5)) == 0
+        if big:
+            # batch across the thresholds (RELAX integrates 256 x 256 points per element: up to 17 (33) only)
+            if est == "st":
+                B = draw(_thresh(k, 1025 if tier == "thorough" else 257, lo=63))
+            else:
+                B = draw(st.sampled_from([15, 16, 17] + ([31, 32, 33] if tier == "thorough" else [])))
+            js = {"rule": [draw(st.integers(1, 30)), draw(st.integers(0, 62))]}
+            fs = draw(_rule())
+        else:
+            js = draw(st.lists(st.one_of(st.integers(1, K - 1), st.sampled_from([1, K // 2, K - 1])), min_size=B, max_size=B))
+            fs = draw(_table_strategy(B, 2))
         case = {"B": B, "estimator": est, "is_log": is_log,
                 "dtype": draw(st.sampled_from(["float32", "float64"])),
                 "param": draw(st.sampled_from(["probs", "logits"])),
-                "j": draw(st.lists(st.one_of(st.integers(1, K - 1), st.sampled_from([1, K // 2, K - 1])), min_size=B, max_size=B)),
-                "f": draw(_table_strategy(B, 2)),
+                "j": js, "f": fs,
                 # control variate c(z) = eta * h(sigmoid(z / temp)), h(x) = h0 + h1 x + h2 x^2
                 "h": [draw(dyadic(4, -1, 1)), draw(dyadic(4, -2, 2)), draw(dyadic(4, -1, 1))],
                 "eta": draw(st.sampled_from([1.0, 0.5, -1.0, 2.0])),
                 "temp": draw(st.sampled_from([1.0, 0.5]))}
+        if big:
+            case["big"] = "B"
+        lay = draw(st.sampled_from(["contig", "contig", "strided", "expanded"]))
+        if lay != "contig":
+            case["param_layout"] = lay
         return case
 
     return build()
 
 
 @subcheck("C19", "relaxed_quadrature", _relaxed_strategy, 250, 5000,
-          doc="StraightThroughEstimator and RelaxEstimator (own control variate and the REBAR module) on LogisticBernoulli with p = j/64: the uniforms are replaced by the 64-point midpoint grid (256x256 for RELAX: relaxed x conditional draw) laid out along the Monte-Carlo dimension; returned mean == exact expectation within twice the midpoint-rule bound sum max|g''|/(24 K^2) (g'' bounded numerically in float64) + float noise",
-          required_classes=["est_st", "est_relax", "est_rebar", "is_log", "p_extreme"])
+          doc="StraightThroughEstimator and RelaxEstimator (own control variate and the REBAR module) on LogisticBernoulli with p = j/64: the uniforms are replaced by the 64-point midpoint grid (256x256 for RELAX: relaxed x conditional draw) laid out along the Monte-Carlo dimension; returned mean == exact expectation within twice the midpoint-rule bound sum max|g''|/(24 K^2) (g'' bounded numerically in float64) + float noise; 1 case in 6 with a batch of 63..257 (1025) elements (straight-through) / 15..17 (33) (RELAX) from rules; parameter vector also as strided / expanded view",
+          required_classes=["est_st", "est_relax", "est_rebar", "is_log", "p_extreme", "big_B",
+                            "param_strided", "param_expanded"])
 def _relaxed_check(case):
     import torch
     from pydrobert.torch.distributions import LogisticBernoulli
@@ -587,12 +869,31 @@ def _relaxed_check(case):
     from pydrobert.torch.modules import LogisticBernoulliRebarControlVariate
 
     B, is_log, which = case["B"], case["is_log"], case["estimator"]
+    case = dict(case)
+    if _is_rule(case["j"]):
+        a, d = case["j"]["rule"]
+        case["j"] = [1 + (a * b + d + b // 5) % (K - 1) for b in range(B)]
+    if _is_rule(case["f"]):
+        case["f"] = _rule_rows(case["f"], B, 2)
+    play = case.get("param_layout")
+    if play == "expanded":
+        case["j"] = [case["j"][0]] * B
     dt = _dt(case)
     ps = [j / K for j in case["j"]]
+
+    def lay(t):  # the parameter vector as an every-other-element or stride-0 view
+        if play == "strided":
+            big = torch.full((2 * B + 1,), 0.5, dtype=t.dtype)
+            big[1::2] = t
+            return big[1::2]
+        if play == "expanded":
+            return t[:1].expand(B)
+        return t
+
     if case["param"] == "probs":
-        dist = LogisticBernoulli(probs=torch.tensor(ps, dtype=dt))
+        dist = LogisticBernoulli(probs=lay(torch.tensor(ps, dtype=dt)))
     else:
-        dist = LogisticBernoulli(logits=torch.tensor([math.log(p) - math.log1p(-p) for p in ps], dtype=torch.float64).to(dt))
+        dist = LogisticBernoulli(logits=lay(torch.tensor([math.log(p) - math.log1p(-p) for p in ps], dtype=torch.float64).to(dt)))
     tab = _tab_tensor(case["f"], dt)
     tab_lin = _lin(case, case["f"])
     func = _table_func(tab, "bern_batch", 1)
@@ -601,6 +902,10 @@ def _relaxed_check(case):
     classes = ["est_" + which, "is_log" if is_log else "linear", case["dtype"], "param_" + case["param"]]
     if any(j in (1, K - 1) for j in case["j"]):
         classes.append("p_extreme")
+    if case.get("big"):
+        classes += ["big_B", _size_class(B)]
+    if play:
+        classes.append("param_" + play)
     if which == "st":
         rand, rand_like, state = _grid_rand([lambda s, d: _midpoints(s, d, "single", K)])
         with fakes.patched(torch, rand=rand, rand_like=rand_like):
@@ -700,70 +1005,127 @@ def _gumbel_check(case):
 def _imh_strategy(tier):
     @st.composite
     def build(draw):
+        k = draw(_K)
         kind, B, size = draw(_space())
         S = _nspace(kind, size)
-        mc = draw(st.integers(1, 6))
-        burn = draw(st.integers(0, mc - 1))
+        big = draw(st.integers(0, 11)) == 0
+        if big:
+            # number of Monte-Carlo samples across the thresholds; proposals from a rule (see _imh_proposals)
+            mc = draw(_thresh(k, 2049 if tier == "thorough" else 1025))
+            burn = draw(st.sampled_from([0, 0, 1, mc // 2, mc - 1, max(0, mc - 1024), min(mc - 1, 16)]))
+        else:
+            mc = draw(st.integers(1, 6))
+            burn = draw(st.integers(0, mc - 1))
         init = draw(st.sampled_from(["drawn", "given", "given_with_leading_1"]))
         ndraws = mc + (1 if init == "drawn" else 0)
         case = {"kind": kind, "B": B, "size": size, "mc": mc, "burn_in": burn, "init": init,
                 "is_log": draw(st.booleans()), "dtype": "float32",
                 "logits": draw(_logits_strategy(kind, B, size)),
                 "f": draw(_table_strategy(B, S)),
-                "proposals": draw(st.lists(st.lists(st.integers(0, S - 1), min_size=B, max_size=B), min_size=ndraws, max_size=ndraws)),
                 "initial": draw(st.lists(st.integers(0, S - 1), min_size=B, max_size=B)),
                 "uniforms": draw(st.lists(st.one_of(st.sampled_from([0, 1, TWO24 - 1, TWO24 // 2]), st.integers(0, TWO24 - 1)), min_size=1, max_size=8)),
                 "same_object": draw(st.booleans())}
+        if big:
+            case["big"] = "mc"
+            case["proposals"] = {"rule": [draw(st.integers(1, 20)), draw(st.integers(0, 20)), draw(st.integers(0, 40))]}
+        else:
+            case["proposals"] = draw(st.lists(st.lists(st.integers(0, S - 1), min_size=B, max_size=B), min_size=ndraws, max_size=ndraws))
+        # call pattern: the estimator object is called a second time (fresh proposals, same initial sample)
+        if draw(st.integers(0, 2)) == 0:
+            case["second_call"] = {"rule": [draw(st.integers(1, 20)), draw(st.integers(0, 20)), draw(st.integers(0, 40))]}
+        lay = draw(st.sampled_from(["contig", "contig"] + LAYOUTS[1:]))
+        if lay != "contig":
+            case["sample_layout"] = lay
         return case
 
     return build()
 
 
+def _imh_proposals(spec, ndraws, B, S):
+    if isinstance(spec, list):
+        return spec
+    a, c, d = spec["rule"]
+    return [[(a * n + c * b + d + (n * n) // 7 + (n // 5) * b) % S for b in range(B)] for n in range(ndraws)]
+
+
 @subcheck("C19", "imh_accepts_all", _imh_strategy, 500, 10000,
-          doc="IndependentMetropolisHastingsEstimator with proposal == target (same object or equal parameters), scripted proposals and scripted uniforms of any value in [0, 1): result == plain average (log-mean-exp in log space) of f over the post-burn-in proposals; initial sample drawn or handed over (with / without leading singleton)",
-          required_classes=["init_drawn", "init_given", "burn_in_positive", "is_log", "uniform_zero_or_max"])
+          doc="IndependentMetropolisHastingsEstimator with proposal == target (same object or equal parameters), scripted proposals and scripted uniforms of any value in [0, 1): result == plain average (log-mean-exp in log space) of f over the post-burn-in proposals; initial sample drawn or handed over (with / without leading singleton); 1 case in 12 with 15..1025 (2049) samples (proposals from a rule); the estimator object called a second time; proposals and the initial sample as transposed / offset views",
+          required_classes=["init_drawn", "init_given", "burn_in_positive", "is_log", "uniform_zero_or_max",
+                            "big_mc", "second_call", "samples_transposed", "samples_offset"])
 def _imh_check(case):
     import torch
     from pydrobert.torch.estimators import IndependentMetropolisHastingsEstimator as IMH
 
     kind, B, size, mc, burn, is_log = case["kind"], case["B"], case["size"], case["mc"], case["burn_in"], case["is_log"]
     dt = _dt(case)
+    S = _nspace(kind, size)
     theta = torch.tensor(case["logits"], dtype=dt)
     proposal = _make_dist(kind, theta)
     density = proposal if case["same_object"] else _make_dist(kind, theta.clone())
     tab = _tab_tensor(case["f"], dt)
     func = _table_func(tab, kind, size)
     points = _points_tensor(kind, size, dt)
+    lay = case.get("sample_layout")
+    ndraws = mc + (1 if case["init"] == "drawn" else 0)
     queue, log = [], []
-    for row in case["proposals"]:
-        queue.append(_sample_for(points, [row], B))
     _stub_sample(proposal, queue, log)
     kwargs = {}
+    init = None
     if case["init"] != "drawn":
         init = _sample_for(points, [case["initial"]], B)
+        if lay == "offset":  # the initial sample is a slice of a larger tensor
+            init = _relayout(torch.cat([init, init], 0), "offset")[:1]
+        elif lay == "transposed" and init.dim() > 2:
+            init = init.transpose(1, 2).contiguous().transpose(1, 2)
         kwargs["initial_sample"] = init if case["init"] == "given_with_leading_1" else init[0]
+        init_before = init.clone()
     est = IMH(proposal, func, mc, density, burn_in=burn, is_log=is_log, **kwargs)
-    with fakes.scripted_uniform([k / TWO24 for k in case["uniforms"]]):
-        v = est()
-    require(not queue, "estimator did not draw the expected number of proposals", len(case["proposals"]) - len(queue), len(case["proposals"]))
-    used = case["proposals"][1:] if case["init"] == "drawn" else case["proposals"]
-    kept = used[burn:]
-    v = v.reshape(-1)
-    require(v.numel() == B, "estimate must have one value per batch element", list(v.shape), [B])
-    for b in range(B):
-        vals = [case["f"][b][row[b]] for row in kept]
-        if is_log:
-            e = math.log(sum(math.exp(x) for x in vals) / len(vals))
-        else:
-            e = sum(vals) / len(vals)
-        require(abs(float(v[b]) - e) <= 1e-5 * (1 + abs(e)),
-                "IMH with proposal == target: result is not the plain average of f over the post-burn-in proposals (batch %d)" % b,
-                float(v[b]), e)
+    fmax = max(abs(x) for r in case["f"] for x in r)
+
+    def one_call(spec, what):
+        props = _imh_proposals(spec, ndraws, B, S)
+        for row in props:
+            q = _sample_for(points, [row], B)
+            if lay == "transposed" and q.dim() > 2:
+                q = q.transpose(1, 2).contiguous().transpose(1, 2)
+            elif lay == "offset":
+                q = _relayout(torch.cat([q, q], 0), "offset")[:1]
+            queue.append(q)
+        with fakes.scripted_uniform([k / TWO24 for k in case["uniforms"]]):
+            v = est()
+        require(not queue, "estimator did not draw the expected number of proposals" + what, len(props) - len(queue), len(props))
+        used = props[1:] if case["init"] == "drawn" else props
+        kept = used[burn:]
+        v = v.reshape(-1)
+        require(v.numel() == B, "estimate must have one value per batch element" + what, list(v.shape), [B])
+        for b in range(B):
+            vals = [case["f"][b][row[b]] for row in kept]
+            if is_log:
+                e = math.log(sum(math.exp(x) for x in vals) / len(vals))
+            else:
+                e = sum(vals) / len(vals)
+            # float32 running sum / running logaddexp over n terms: (n - 1) * 2^-24 relative to the sum of magnitudes
+            tol = 1e-5 * (1 + abs(e)) + 2.0 * len(vals) * 6e-8 * (1.0 + fmax)
+            require(abs(float(v[b]) - e) <= tol,
+                    "IMH with proposal == target: result is not the plain average of f over the post-burn-in proposals (batch %d)%s" % (b, what),
+                    float(v[b]), e)
+        return used
+
+    used = one_call(case["proposals"], "")
     classes = ["init_drawn" if case["init"] == "drawn" else "init_given", "is_log" if is_log else "linear", "kind_" + kind]
+    if case.get("second_call"):
+        one_call(case["second_call"], " [second call of the same estimator object]")
+        classes.append("second_call")
+    if init is not None:
+        require(torch.equal(init, init_before), "the estimator modified the initial sample it was handed", init.tolist(), init_before.tolist())
     if burn:
         classes.append("burn_in_positive")
     if any(k in (0, TWO24 - 1) for k in case["uniforms"][:mc]):
         classes.append("uniform_zero_or_max")
+    if case.get("big"):
+        classes += ["big_mc", _size_class(mc)]
+    if lay:
+        classes.append("samples_" + lay)
     distinct = len({tuple(r) for r in used}) > 1
     return Info(nontrivial=distinct and _nonconstant(case["f"]), classes=classes)
 
@@ -778,31 +1140,75 @@ def _uniform_k():
 def _relaxed_dist_strategy(tier):
     @st.composite
     def build(draw):
+        k = draw(_K)
         which = draw(st.sampled_from(["bernoulli", "categorical"]))
-        B = draw(st.integers(1, 3))
         dtype = draw(st.sampled_from(["float32", "float64"]))
         param = draw(st.sampled_from(["logits", "probs"]))
-        if which == "bernoulli":
-            if param == "logits":
-                params = draw(st.lists(st.one_of(dyadic(4, -3, 3), st.sampled_from([-8.0, 8.0, 0.0])), min_size=B, max_size=B))
+        extra = {}
+        if draw(st.integers(0, 5)) == 0:
+            # batch or number of categories across the thresholds; parameters from a rule (see _relaxed_params)
+            thorough = tier == "thorough"
+            if which == "bernoulli":
+                B, V = draw(_thresh(k, 2049 if thorough else 1025)), 1
+                extra["big"] = "B"
+            elif draw(st.booleans()):
+                B, V = draw(_thresh(k, 257 if thorough else 129)), draw(st.integers(2, 4))
+                extra["big"] = "B"
             else:
-                params = draw(st.lists(st.one_of(dyadic(64, 1 / 64, 63 / 64), st.sampled_from([2.0 ** -10, 1 - 2.0 ** -10])), min_size=B, max_size=B))
-            n = B
-            V = 1
+                B, V = draw(st.integers(1, 3)), draw(_thresh(k, 2049 if thorough else 1025))
+                extra["big"] = "V"
+            params = {"rule": [draw(st.integers(0, 20)), draw(st.integers(0, 20)), draw(st.integers(0, 40))]}
+            mc = draw(st.integers(1, 2))
+            nmax = 24
         else:
-            V = draw(st.integers(2, 4))
-            if param == "logits":
-                params = draw(st.lists(st.lists(dyadic(4, -3, 3), min_size=V, max_size=V), min_size=B, max_size=B))
+            B = draw(st.integers(1, 3))
+            if which == "bernoulli":
+                if param == "logits":
+                    params = draw(st.lists(st.one_of(dyadic(4, -3, 3), st.sampled_from([-8.0, 8.0, 0.0]),
+                                                     st.sampled_from([-60.0, -30.0, -16.0, 16.0, 30.0, 60.0])), min_size=B, max_size=B))
+                else:
+                    params = draw(st.lists(st.one_of(dyadic(64, 1 / 64, 63 / 64), st.sampled_from([2.0 ** -10, 1 - 2.0 ** -10])), min_size=B, max_size=B))
+                V = 1
             else:
-                params = draw(st.lists(st.lists(st.integers(1, 16), min_size=V, max_size=V), min_size=B, max_size=B))
-            n = B * V
-        return {"which": which, "B": B, "V": V, "dtype": dtype, "param": param, "params": params,
-                "mc": draw(st.integers(1, 4)),
-                "u": draw(st.lists(_uniform_k(), min_size=1, max_size=4 * n)),
-                "v": draw(st.lists(_uniform_k(), min_size=1, max_size=4 * n)),
-                "validate": draw(st.booleans())}
+                V = draw(st.integers(2, 4))
+                if param == "logits":
+                    params = draw(st.lists(st.lists(st.one_of(dyadic(4, -3, 3), dyadic(4, -3, 3), st.sampled_from([-30.0, -16.0, 16.0, 30.0])),
+                                                    min_size=V, max_size=V), min_size=B, max_size=B))
+                else:
+                    params = draw(st.lists(st.lists(st.integers(1, 16), min_size=V, max_size=V), min_size=B, max_size=B))
+            mc = draw(st.integers(1, 4))
+            nmax = 4 * B * V
+        lay = draw(st.sampled_from(["contig", "contig", "contig", "transposed", "offset", "expanded"]))
+        if lay != "contig":
+            extra["param_layout"] = lay
+        lay = draw(st.sampled_from(["contig", "contig"] + LAYOUTS[1:]))
+        if lay != "contig":
+            extra["b_layout"] = lay
+        return dict({"which": which, "B": B, "V": V, "dtype": dtype, "param": param, "params": params,
+                     "mc": mc,
+                     "u": draw(st.lists(_uniform_k(), min_size=1, max_size=nmax)),
+                     "v": draw(st.lists(_uniform_k(), min_size=1, max_size=nmax)),
+                     "validate": draw(st.booleans())}, **extra)
 
     return build()
+
+
+def _relaxed_params(case):
+    """Explicit parameter list of a case (rules expand deterministically; 'expanded' layouts repeat row 0)."""
+    spec, B, V = case["params"], case["B"], case["V"]
+    if _is_rule(spec):
+        bern = case["which"] == "bernoulli"
+        if case["param"] == "logits":
+            rows = _rule_rows(spec, B, V, -3, 3)
+        elif bern:
+            rows = [[(1 + (spec["rule"][0] * b + spec["rule"][2]) % 63) / 64] for b in range(B)]
+        else:
+            a, c, d = spec["rule"]
+            rows = [[1 + (a * b + c * i + d + (b * i) % 5) % 16 for i in range(V)] for b in range(B)]
+        spec = [r[0] for r in rows] if bern else rows
+    if case.get("param_layout") == "expanded":
+        spec = [spec[0]] * B
+    return spec
 
 
 def _relaxed_dist(case):
@@ -810,23 +1216,44 @@ def _relaxed_dist(case):
     from pydrobert.torch.distributions import GumbelOneHotCategorical, LogisticBernoulli
 
     dt = _dt(case)
-    t = torch.tensor(case["params"], dtype=dt)
+    params = _relaxed_params(case)
+    t = torch.tensor(params, dtype=dt)
+    lay = case.get("param_layout")
+    if lay == "expanded":  # stride 0 along the batch
+        t = t[:1].expand(t.shape)
+    elif lay == "offset":
+        big = torch.full((t.shape[0] + 3,) + tuple(t.shape[1:]), 0.5, dtype=dt)
+        big[2:2 + t.shape[0]] = t
+        t = big[2:2 + t.shape[0]]
+        if t.dim() == 2:
+            wide = torch.full((t.shape[0], t.shape[1] + 2), 0.5, dtype=dt)
+            wide[:, 1:-1] = t
+            t = wide[:, 1:-1]
+    elif lay == "transposed":
+        if t.dim() == 2:
+            t = t.t().contiguous().t()
+        else:  # every other element of a larger vector
+            big = torch.full((2 * t.shape[0] + 1,), 0.5, dtype=dt)
+            big[1::2] = t
+            t = big[1::2]
     kw = {"validate_args": case.get("validate", False)}
     if case["which"] == "bernoulli":
         d = LogisticBernoulli(**{case["param"]: t}, **kw)
-        probs = [ex.sigmoid(x) for x in case["params"]] if case["param"] == "logits" else list(case["params"])
+        probs = [ex.sigmoid(x) for x in params] if case["param"] == "logits" else list(params)
     else:
         d = GumbelOneHotCategorical(**{case["param"]: t}, **kw)
         if case["param"] == "logits":
-            probs = [ex.softmax(r) for r in case["params"]]
+            probs = [ex.softmax(r) for r in params]
         else:
-            probs = [[x / sum(r) for x in r] for r in case["params"]]
+            probs = [[x / sum(r) for x in r] for r in params]
     return d, probs
 
 
 @subcheck("C19", "relaxed_identities", _relaxed_dist_strategy, 800, 20000,
-          doc="LogisticBernoulli / GumbelOneHotCategorical, all parameterisations, uniforms scripted as k/2^24 incl. 0 and 1-2^-24: threshold(csample(b)) == b for every b; log_prob(z) == tlog_prob(H(z)) + clog_prob(z, H(z)); clog_prob(z, b) == -inf iff H(z) != b; tlog_prob == exact log P(b); samples lie in the (thresholded) support",
-          required_classes=["bernoulli", "categorical", "boundary_uniform", "float32", "float64"])
+          doc="LogisticBernoulli / GumbelOneHotCategorical, all parameterisations, uniforms scripted as k/2^24 incl. 0 and 1-2^-24: threshold(csample(b)) == b for every b; log_prob(z) == tlog_prob(H(z)) + clog_prob(z, H(z)); clog_prob(z, b) == -inf iff H(z) != b; tlog_prob == exact log P(b); samples lie in the (thresholded) support; 1 case in 6 with a batch of 15..1025 (2049) / 15..1025 (2049) categories from rules (then the first, the last and one generated category are conditioned on, not all); parameters as transposed / offset / expanded views, conditioning values and relaxed samples as transposed / offset views; logits of magnitude 16 / 30 (60)",
+          required_classes=["bernoulli", "categorical", "boundary_uniform", "float32", "float64",
+                            "big_B", "big_V", "param_transposed", "param_offset", "param_expanded",
+                            "b_transposed", "b_offset", "extreme_logits"])
 def _relaxed_dist_check(case):
     import torch
 
@@ -835,38 +1262,52 @@ def _relaxed_dist_check(case):
     B, V, mc = case["B"], case["V"], case["mc"]
     bern = case["which"] == "bernoulli"
     f32 = case["dtype"] == "float32"
+    blay = case.get("b_layout")
+    plist = _relaxed_params(case)
     with fakes.scripted_uniform([k / TWO24 for k in case["u"]]):
         z = d.rsample([mc])
     want = (mc, B) if bern else (mc, B, V)
     require(tuple(z.shape) == want, "rsample shape", list(z.shape), list(want))
-    require(bool(torch.isfinite(z).all()), "relaxed sample not finite", z.tolist(), None)
-    require(bool(d.support.check(z).all()), "relaxed sample outside the distribution's support", z.tolist(), None)
+    require(bool(torch.isfinite(z).all()), "relaxed sample not finite", z.tolist() if z.numel() <= 64 else None, None)
+    require(bool(d.support.check(z).all()), "relaxed sample outside the distribution's support", z.tolist() if z.numel() <= 64 else None, None)
+    z = _relayout(z, blay)
     b = d.threshold(z)
     require(bool(d.thresholded_support.check(b).all()) if not bern else bool(((b == 0) | (b == 1)).all()),
-            "thresholded sample outside the thresholded support", b.tolist(), None)
-    # all discrete values
+            "thresholded sample outside the thresholded support", b.tolist() if b.numel() <= 64 else None, None)
+    # the discrete values conditioned on: all of them, or (many categories) the first, the last and one generated
     if bern:
-        all_b = [torch.full((mc, B), float(x), dtype=dt) for x in (0, 1)]
+        ks = [0, 1]
+        all_b = [torch.full((mc, B), float(x), dtype=dt) for x in ks]
     else:
-        all_b = [torch.eye(V, dtype=dt)[k].expand(mc, B, V).contiguous() for k in range(V)]
+        ks = list(range(V)) if V <= 8 else sorted({0, V - 1, case["u"][0] % V})
+        all_b = [torch.eye(V, dtype=dt)[k].expand(mc, B, V).contiguous() for k in ks]
+    all_b = [_relayout(x, blay) for x in all_b]
     # tlog_prob against exact probabilities
-    for bi, bb in enumerate(all_b):
+    for bi, bb in zip(ks, all_b):
         lp = d.tlog_prob(bb)
         require(tuple(lp.shape) == (mc, B), "tlog_prob shape", list(lp.shape), [mc, B])
-        for n in range(B):
-            p = (probs[n] if bi else 1 - probs[n]) if bern else probs[n][bi]
-            e = math.log(p)
-            require(abs(float(lp[0, n]) - e) <= (2e-5 if f32 else 1e-9) * (1 + abs(e)), "tlog_prob != log P(b)", float(lp[0, n]), e)
+        lpl = lp.tolist()
+        for m in range(mc):
+            for n in range(B):
+                if bern and case["param"] == "logits":
+                    # log sigmoid(+-x) without the cancellation of 1 - sigmoid(x)
+                    x = plist[n] if bi else -plist[n]
+                    e = -math.log1p(math.exp(-x)) if x >= 0 else x - math.log1p(math.exp(x))
+                else:
+                    p = (probs[n] if bi else 1 - probs[n]) if bern else probs[n][bi]
+                    e = math.log(p)
+                require(abs(lpl[m][n] - e) <= (2e-5 if f32 else 1e-9) * (1 + abs(e)), "tlog_prob != log P(b)", lpl[m][n], e)
     # conditional samples threshold back to the conditioning value
     zconds = []
     for bb in all_b:
         with fakes.scripted_uniform([k / TWO24 for k in case["v"]]):
             zc = d.csample(bb)
         require(tuple(zc.shape) == tuple(bb.shape), "csample shape", list(zc.shape), list(bb.shape))
-        require(bool(torch.isfinite(zc).all()), "conditional relaxed sample not finite", zc.tolist(), None)
+        require(bool(torch.isfinite(zc).all()), "conditional relaxed sample not finite", zc.tolist() if zc.numel() <= 64 else None, None)
         back = d.threshold(zc)
-        require(torch.equal(back, bb), "threshold(csample(b)) != b", back.tolist(), bb.tolist())
-        zconds.append(zc)
+        require(torch.equal(back, bb), "threshold(csample(b)) != b", back.tolist() if back.numel() <= 64 else None,
+                bb.tolist() if bb.numel() <= 64 else None)
+        zconds.append(_relayout(zc, blay))
     # factorisation of the relaxed density, on the unconditional and the conditional samples
     tol = 1e-4 if f32 else 1e-9
     for zz in [z] + zconds:
@@ -879,18 +1320,28 @@ def _relaxed_dist_check(case):
             # log_prob sums exp(logits - z) over categories: the float error scales with those terms
             mag += float((d.logits - zz).exp().max())
         err = (lhs - rhs).abs().max().item()
-        require(err <= tol * mag, "log_prob(z) != tlog_prob(H(z)) + clog_prob(z, H(z))", lhs.tolist(), rhs.tolist())
+        require(err <= tol * mag, "log_prob(z) != tlog_prob(H(z)) + clog_prob(z, H(z))", lhs.tolist() if lhs.numel() <= 64 else err,
+                rhs.tolist() if rhs.numel() <= 64 else tol * mag)
         for bb in all_b:
             cl = d.clog_prob(zz, bb)
             same = (hb == bb) if bern else (hb == bb).all(-1)
             isinf = cl == float("-inf")
             require(bool((isinf == ~same).all()), "clog_prob(z, b) must be -inf exactly where H(z) != b",
-                    cl.tolist(), same.tolist())
+                    cl.tolist() if cl.numel() <= 64 else None, same.tolist() if same.numel() <= 64 else None)
     classes = [case["which"], case["dtype"], "param_" + case["param"]]
     if any(k in (0, 1, TWO24 - 1) for k in case["u"] + case["v"]):
         classes.append("boundary_uniform")
     if case["validate"]:
         classes.append("validate_args")
+    if case.get("big"):
+        classes += ["big_" + case["big"], _size_class(B if case["big"] == "B" else V)]
+    if case.get("param_layout"):
+        classes.append("param_" + case["param_layout"])
+    if blay:
+        classes.append("b_" + blay)
+    flat = [x for r in _relaxed_params(case) for x in (r if isinstance(r, list) else [r])]
+    if case["param"] == "logits" and any(abs(x) >= 16 for x in flat):
+        classes.append("extreme_logits")
     return Info(nontrivial=True, classes=classes)
 
 
@@ -967,7 +1418,19 @@ def _srswor_enum(tier):
                 for s in range(seeds):
                     out.append({"total": total, "given": given, "out_extra": extra, "seed": 1000 * s + 17 * total + given,
                                 "route": "dist" if (s + total) % 2 else "functional"})
+    # vector sizes across the thresholds (the support is enumerated up to total 16 (17) only: it is filtered out
+    # of all 2^total binary vectors)
+    limit = 1025 if tier == "quick" else 2049
+    for total in [x for x in THRESH if x <= limit]:
+        for given in sorted({0, 1, total // 3, total // 2, total - 1, total}):
+            for extra in (None, 1):
+                for s in range(1 if tier == "quick" else 3):
+                    out.append({"total": total, "given": given, "out_extra": extra, "seed": 77 * s + total + given,
+                                "route": "dist" if (s + total + given) % 2 else "functional", "big": True})
     return out
+
+
+ENUM_SUPPORT_LIMIT = {"quick": 16, "thorough": 17}
 
 
 def _srswor_one(total, given, out_size, seed, route, sample_shape=()):
@@ -995,36 +1458,47 @@ def _srswor_laws(b, totals, givens, out_size, what):
     require(b.shape[-1] == out_size, what + ": vector size", b.shape[-1], out_size)
     for i, row in enumerate(rows):
         T, L = totals[i % len(totals)], givens[i % len(givens)]
-        require(all(x in (0.0, 1.0) for x in row), what + ": sample is not binary", row, None)
-        require(sum(row) == L, what + ": number of ones != given_count (total=%d)" % T, row, L)
-        require(sum(row[T:]) == 0, what + ": a one lies at or beyond position total_count=%d" % T, row, None)
+        short = row if len(row) <= 40 else {"ones_at": [i for i, x in enumerate(row) if x][:60], "size": len(row)}
+        require(all(x in (0.0, 1.0) for x in row), what + ": sample is not binary", short, None)
+        require(sum(row) == L, what + ": number of ones != given_count (total=%d)" % T, short, L)
+        require(sum(row[T:]) == 0, what + ": a one lies at or beyond position total_count=%d" % T, short, None)
 
 
 @subcheck("C19", "srswor_enum", _srswor_enum, 0, 0, exhaustive=True,
-          doc="every total 0..8, given <= total, out_size in {default, total, total+1, total+3}, 6 (quick) / 200 (thorough) seeds, distribution and functional form: exactly `given` ones, all before position `total`; sample satisfies support.check; exp(log_prob) summed over enumerate_support() == 1 and the support is the set of all C(total, given) vectors",
-          required_classes=["given_0", "given_eq_total", "padded", "total_0"])
+          doc="every total 0..8, given <= total, out_size in {default, total, total+1, total+3}, 6 (quick) / 200 (thorough) seeds, distribution and functional form: exactly `given` ones, all before position `total`; sample satisfies support.check; exp(log_prob) summed over enumerate_support() == 1 and the support is the set of all C(total, given) vectors; plus every total in the thresholds 15..1025 (2049) with given in {0, 1, total/3, total/2, total-1, total} (support enumerated up to total 17); the distribution object is sampled a second time after its support was enumerated",
+          required_classes=["given_0", "given_eq_total", "padded", "total_0", "big_total", "size_ge_1023", "big_support_enumerated"])
 def _srswor_check(case):
     import torch
 
     T, L = case["total"], case["given"]
     out_size = None if case["out_extra"] is None else T + case["out_extra"]
     eff = T if out_size is None else out_size
-    b, d = _srswor_one(T, L, out_size, case["seed"], case["route"], sample_shape=(3,))
-    require(tuple(b.shape) == (3, eff), "sample shape", list(b.shape), [3, eff])
+    ns = 2 if case.get("big") else 3
+    b, d = _srswor_one(T, L, out_size, case["seed"], case["route"], sample_shape=(ns,))
+    require(tuple(b.shape) == (ns, eff), "sample shape", list(b.shape), [ns, eff])
     _srswor_laws(b, [T], [L], eff, "SRSWOR")
     classes = []
     if d is not None:
-        require(bool(d.support.check(b).all()), "sample fails the distribution's own support check", b.tolist(), None)
+        require(bool(d.support.check(b).all()), "sample fails the distribution's own support check", b.tolist() if eff <= 32 else None, None)
         require(bool(d.has_enumerate_support), "scalar counts must be enumerable", False, True)
-        sup = d.enumerate_support()
-        n = math.comb(T, L)
-        require(tuple(sup.shape) == (n, eff), "enumerate_support shape", list(sup.shape), [n, eff])
-        rows = {tuple(int(x) for x in r) for r in sup.tolist()}
-        expect = {tuple(1 if i in c else 0 for i in range(eff)) for c in itertools.combinations(range(T), L)}
-        require(rows == expect, "enumerate_support is not the set of all vectors with the given cardinality", sorted(rows), sorted(expect))
-        require(bool(d.support.check(sup).all()), "enumerated vector fails the support check", None, None)
-        mass = float(d.log_prob(sup).double().exp().sum())
-        require(abs(mass - 1.0) <= 1e-5, "probabilities over the enumerated support do not sum to one (total=%d, given=%d)" % (T, L), mass, 1.0)
+        if T <= 17 and (not case.get("big") or (T <= ENUM_SUPPORT_LIMIT["thorough"] and L in (1, T // 2))):
+            sup = d.enumerate_support()
+            n = math.comb(T, L)
+            require(tuple(sup.shape) == (n, eff), "enumerate_support shape", list(sup.shape), [n, eff])
+            rows = {tuple(int(x) for x in r) for r in sup.tolist()}
+            expect = {tuple(1 if i in c else 0 for i in range(eff)) for c in itertools.combinations(range(T), L)}
+            require(rows == expect, "enumerate_support is not the set of all vectors with the given cardinality",
+                    sorted(rows)[:20], sorted(expect)[:20])
+            require(bool(d.support.check(sup).all()), "enumerated vector fails the support check", None, None)
+            mass = float(d.log_prob(sup).double().exp().sum())
+            # log C(total, given) is accumulated in float32 from total logarithms
+            require(abs(mass - 1.0) <= (1e-5 if T <= 8 else 5e-5), "probabilities over the enumerated support do not sum to one (total=%d, given=%d)" % (T, L), mass, 1.0)
+            if case.get("big"):
+                classes.append("big_support_enumerated")
+            # call pattern: the same object is sampled again after its support and log-partition were computed
+            torch.manual_seed(case["seed"] + 1)
+            b2 = d.sample([2])
+            _srswor_laws(b2, [T], [L], eff, "SRSWOR (second sample of the same object)")
         classes.append("dist")
     if L == 0:
         classes.append("given_0")
@@ -1034,39 +1508,93 @@ def _srswor_check(case):
         classes.append("total_0")
     if eff > T:
         classes.append("padded")
+    if case.get("big"):
+        classes += ["big_total", _size_class(T)]
     return Info(nontrivial=0 < L < T, classes=classes)
 
 
 def _srswor_batch_strategy(tier):
     @st.composite
     def build(draw):
-        B = draw(st.integers(1, 4))
-        totals = draw(st.lists(st.integers(0, 8), min_size=B, max_size=B))
-        givens = [draw(st.integers(0, t)) for t in totals]
-        shape = draw(st.sampled_from(["vector", "vector", "total_scalar", "given_scalar", "matrix"]))
-        if shape == "total_scalar":
-            totals = [max(totals)] * B
-        if shape == "given_scalar":
-            givens = [min(g for g in givens)] * B
-        return {"totals": totals, "givens": givens, "shape": shape,
+        k = draw(_K)
+        big = draw(st.integers(0, 5)) == 0
+        if big:
+            # batch across the thresholds; counts from a rule (see _srswor_counts)
+            B = draw(_thresh(k, 1025 if tier == "thorough" else 257))
+            totals = {"rule": [draw(st.integers(1, 20)), draw(st.integers(0, 20)), draw(st.sampled_from([8, 8, 16, 40]))]}
+            givens = None
+            shape = draw(st.sampled_from(["vector", "vector", "matrix", "matrix_t"]))
+        else:
+            B = draw(st.integers(1, 4))
+            totals = draw(st.lists(st.integers(0, 8), min_size=B, max_size=B))
+            givens = [draw(st.integers(0, t)) for t in totals]
+            shape = draw(st.sampled_from(["vector", "vector", "total_scalar", "given_scalar", "matrix"]))
+            if shape == "total_scalar":
+                totals = [max(totals)] * B
+            if shape == "given_scalar":
+                givens = [min(g for g in givens)] * B
+        case = {"totals": totals, "givens": givens, "shape": shape,
                 "out_extra": draw(st.sampled_from([None, 0, 1, 2])), "seed": draw(st.integers(0, 2 ** 31 - 1)),
                 "route": draw(st.sampled_from(["dist", "functional"])), "ns": draw(st.integers(1, 3))}
+        if big:
+            case["big"], case["B"] = "B", B
+        lay = draw(st.sampled_from(["contig", "contig", "strided", "offset", "expanded"]))
+        if lay != "contig":
+            case["count_layout"] = lay
+        if case["route"] == "dist" and draw(st.integers(0, 2)) == 0:
+            # call pattern: Distribution.expand() of the object, sampled after the original was sampled
+            case["expand"] = draw(st.integers(1, 3))
+        return case
 
     return build()
 
 
+def _srswor_counts(case):
+    totals, givens = case["totals"], case["givens"]
+    if _is_rule(totals):
+        a, c, tmax = totals["rule"]
+        B = case["B"]
+        totals = [(a * b + c + b // 3) % (tmax + 1) for b in range(B)]
+        givens = [(c * b + a + b // 5) % (t + 1) for b, t in enumerate(totals)]
+    if case.get("count_layout") == "expanded":  # stride 0: all counts equal
+        totals, givens = [totals[0]] * len(totals), [givens[0]] * len(givens)
+    return totals, givens
+
+
+def _vec_layout(x, layout):
+    """1-D long tensor as every-third-element / offset slice / stride-0 view of another tensor."""
+    import torch
+
+    n = x.shape[0]
+    if layout == "strided":
+        big = torch.zeros(3 * n + 1, dtype=x.dtype)
+        big[1::3] = x
+        return big[1::3]
+    if layout == "offset":
+        big = torch.zeros(n + 4, dtype=x.dtype)
+        big[3:3 + n] = x
+        return big[3:3 + n]
+    if layout == "expanded":
+        return x[:1].expand(n)
+    return x
+
+
 @subcheck("C19", "srswor_batch", _srswor_batch_strategy, 500, 10000,
-          doc="batched / broadcast total and given counts (vector, scalar-vs-vector, 2-D), generated seeds: every row has exactly its given count of ones inside its first total positions; support check; mass over the enumerated support == 1 when enumerable",
-          required_classes=["mixed_totals", "broadcast"])
+          doc="batched / broadcast total and given counts (vector, scalar-vs-vector, 2-D), generated seeds: every row has exactly its given count of ones inside its first total positions; support check; mass over the enumerated support == 1 when enumerable; 1 case in 6 with a batch of 15..257 (1025) count pairs from a rule (totals up to 40); count tensors as strided / offset / expanded (stride 0) / transposed 2-D views; Distribution.expand() of the object sampled after the original",
+          required_classes=["mixed_totals", "broadcast", "big_B", "counts_strided", "counts_offset", "counts_expanded",
+                            "counts_matrix_transposed", "expanded_distribution"])
 def _srswor_batch_check(case):
     import torch
 
-    totals, givens, B = case["totals"], case["givens"], len(case["totals"])
+    totals, givens = _srswor_counts(case)
+    B = len(totals)
     tmax = max(totals)
     out_size = None if case["out_extra"] is None else tmax + case["out_extra"]
     eff = tmax if out_size is None else out_size
-    tt, gg = torch.tensor(totals), torch.tensor(givens)
+    lay = case.get("count_layout")
+    tt, gg = _vec_layout(torch.tensor(totals), lay), _vec_layout(torch.tensor(givens), lay)
     classes = []
+    lead = (B,)
     if case["shape"] == "total_scalar":
         tt = torch.tensor(totals[0])
         classes.append("broadcast")
@@ -1074,21 +1602,49 @@ def _srswor_batch_check(case):
         gg = torch.tensor(givens[0])
         classes.append("broadcast")
     elif case["shape"] == "matrix":
-        tt, gg = tt.view(1, B), gg.view(1, B)
+        tt, gg = tt.view(1, B) if tt.is_contiguous() else tt.unsqueeze(0), gg.view(1, B) if gg.is_contiguous() else gg.unsqueeze(0)
+        lead = (1, B)
+    elif case["shape"] == "matrix_t":
+        # (B // k, k) matrices stored column-major (transposed views)
+        k = 3 if B % 3 == 0 else 1
+        tt = torch.tensor(totals).view(k, B // k).t()
+        gg = torch.tensor(givens).view(k, B // k).t()
+        totals = tt.reshape(-1).tolist()
+        givens = gg.reshape(-1).tolist()
+        lead = (B // k, k)
+        classes.append("counts_matrix_transposed")
     b, d = _srswor_one(tt, gg, out_size, case["seed"], case["route"], sample_shape=(case["ns"],))
-    lead = (case["ns"],) + ((1, B) if case["shape"] == "matrix" else (B,))
+    lead = (case["ns"],) + lead
     require(tuple(b.shape) == lead + (eff,), "sample shape", list(b.shape), list(lead + (eff,)))
     _srswor_laws(b, totals, givens, eff, "SRSWOR (batched)")
     if d is not None:
-        require(bool(d.support.check(b).all()), "sample fails the distribution's own support check", b.tolist(), None)
-        if d.has_enumerate_support:
+        require(bool(d.support.check(b).all()), "sample fails the distribution's own support check", b.tolist() if b.numel() <= 64 else None, None)
+        if d.has_enumerate_support and tmax <= 12:
             sup = d.enumerate_support()
             lp = d.log_prob(sup).double().exp()
             mass = lp.reshape(lp.shape[0], -1).sum(0)
-            require(bool(((mass - 1).abs() <= 1e-5).all()), "probabilities over the enumerated support do not sum to one", mass.tolist(), 1.0)
+            require(bool(((mass - 1).abs() <= 1e-5).all()), "probabilities over the enumerated support do not sum to one", mass.tolist()[:8], 1.0)
             classes.append("enumerable")
+        if case.get("expand"):
+            k = case["expand"]
+            d2 = d.expand((k,) + tuple(d.batch_shape))
+            b2 = d2.sample()
+            require(tuple(b2.shape) == (k,) + tuple(d.batch_shape) + (eff,), "sample shape of the expanded distribution",
+                    list(b2.shape), [k] + list(d.batch_shape) + [eff])
+            _srswor_laws(b2, totals, givens, eff, "SRSWOR (Distribution.expand)")
+            require(bool(d2.support.check(b2).all()), "sample of the expanded distribution fails its support check", None, None)
+            lp1, lp2 = d.log_prob(b[0]), d2.log_prob(b2)
+            require(bool((lp2 == lp1.unsqueeze(0).expand_as(lp2)).all()), "log_prob of the expanded distribution differs from the original's",
+                    lp2.reshape(-1).tolist()[:8], lp1.reshape(-1).tolist()[:8])
+            b3 = d.sample()  # and the original again
+            _srswor_laws(b3, totals, givens, eff, "SRSWOR (original after expand)")
+            classes.append("expanded_distribution")
     if len(set(totals)) > 1:
         classes.append("mixed_totals")
+    if case.get("big"):
+        classes += ["big_B", _size_class(B)]
+    if lay:
+        classes.append("counts_" + lay)
     return Info(nontrivial=any(0 < g < t for g, t in zip(givens, totals)), classes=classes)
 
 
@@ -1100,12 +1656,22 @@ def _comb_enum(tier):
     out += [{"what": "vocab", "length": n, "vocab": v} for n in range(0, 5) for v in range(1, 5)]
     out += [{"what": "binary", "length": n} for n in range(0, 9 if tier == "quick" else 11)]
     out += [{"what": "card_int", "length": n, "count": c} for n in range(0, 8) for c in range(0, n + 2)]
+    # sizes across the thresholds: vocabulary (length 1: all of THRESH, length 2: up to 257, length 3: up to 33),
+    # 2^15 .. 2^17 binary sequences, fixed cardinality out of 15 .. 17 positions; requested dtypes
+    top = 17 if tier == "thorough" else 16
+    out += [{"what": "vocab", "length": 1, "vocab": v, "big": True} for v in THRESH]
+    out += [{"what": "vocab", "length": 2, "vocab": v, "big": True} for v in THRESH if v <= 257]
+    out += [{"what": "vocab", "length": 3, "vocab": v, "big": True} for v in THRESH if v <= 33]
+    out += [{"what": "binary", "length": n, "big": True} for n in range(15, top + 1)]
+    out += [{"what": "card_int", "length": n, "count": c, "big": True} for n in range(15, top + 1) for c in (0, 1, 2, n // 2, n - 1, n)]
+    out += [{"what": "vocab", "length": n, "vocab": v, "dtype": dt} for n, v in ((3, 3), (2, 17), (1, 257))
+            for dt in ("int32", "int16", "float32", "float64")]
     return out
 
 
 @subcheck("C19", "combinatorics_enum", _comb_enum, 0, 0, exhaustive=True,
-          doc="binomial_coefficient == math.comb for every length 0..66 and count 0..length+1; enumerate_vocab_sequences / enumerate_binary_sequences / ..._with_cardinality (int form) == itertools, including the documented prefix ordering",
-          required_classes=["binom_recursion_branch", "binom_factorial_branch"])
+          doc="binomial_coefficient == math.comb for every length 0..66 and count 0..length+1; enumerate_vocab_sequences / enumerate_binary_sequences / ..._with_cardinality (int form) == itertools, including the documented prefix ordering; vocabulary sizes 15..2049 (length 1), ..257 (length 2), ..33 (length 3), 2^15..2^16 (2^17) binary sequences and fixed cardinality out of 15..16 (17) positions against an arithmetic oracle (digit t of row s is (s // V^t) mod V); requested dtypes int32 / int16 / float32 / float64",
+          required_classes=["binom_recursion_branch", "binom_factorial_branch", "big_vocab", "big_binary", "big_card_int", "dtype_requested", "size_ge_1023"])
 def _comb_check(case):
     import torch
     from pydrobert.torch import functional as F
@@ -1122,8 +1688,22 @@ def _comb_check(case):
         return Info(nontrivial=n >= 2, classes=["binom_recursion_branch" if n > 20 else "binom_factorial_branch"])
     if w in ("vocab", "binary"):
         V = case.get("vocab", 2)
-        got = F.enumerate_vocab_sequences(n, V) if w == "vocab" else F.enumerate_binary_sequences(n)
+        kw = {}
+        if case.get("dtype"):
+            kw["dtype"] = getattr(torch, case["dtype"])
+        got = F.enumerate_vocab_sequences(n, V, **kw) if w == "vocab" else F.enumerate_binary_sequences(n, **kw)
         require(tuple(got.shape) == (V ** n, n), "enumeration shape", list(got.shape), [V ** n, n])
+        require(got.dtype == kw.get("dtype", torch.long), "enumeration dtype", str(got.dtype), str(kw.get("dtype", torch.long)))
+        if case.get("big") or case.get("dtype"):
+            # documented order: position 0 varies fastest, i.e. digit t of row s is (s // V^t) mod V
+            srow = torch.arange(V ** n, dtype=torch.long).unsqueeze(1)
+            exp_t = torch.stack([(srow[:, 0] // (V ** t)) % V for t in range(n)], 1) if n else srow[:, :0]
+            ok = torch.equal(got.to(torch.long), exp_t)
+            bad = [] if ok else (got.to(torch.long) != exp_t).nonzero()[:5].tolist()
+            require(ok, "enumeration differs from the documented order (digit t of row s = (s // V^t) mod V) at %s" % bad,
+                    [got[i, j].item() for i, j in bad], [exp_t[i, j].item() for i, j in bad])
+            cls = ["big_" + w, _size_class(V if w == "vocab" else 2 ** n)] if case.get("big") else ["dtype_requested"]
+            return Info(nontrivial=True, classes=cls)
         rows = [tuple(r) for r in got.tolist()]
         # documented order: position 0 varies fastest (all sequences of length n-x are support[:V**(n-x), :n-x])
         exp = [tuple(reversed(t)) for t in itertools.product(range(V), repeat=n)]
@@ -1134,55 +1714,257 @@ def _comb_check(case):
     exp = {tuple(1 if i in cc else 0 for i in range(n)) for cc in itertools.combinations(range(n), c)}
     rows = [tuple(r) for r in got.tolist()]
     require(len(rows) == len(set(rows)) == len(exp) and set(rows) == exp,
-            "enumerate_binary_sequences_with_cardinality(%d, %d) is not the set of combinations" % (n, c), rows, sorted(exp))
-    return Info(nontrivial=0 < c < n, classes=["card_int"])
+            "enumerate_binary_sequences_with_cardinality(%d, %d) is not the set of combinations" % (n, c), rows[:20], sorted(exp)[:20])
+    return Info(nontrivial=0 < c < n, classes=["card_int"] + (["big_card_int"] if case.get("big") else []))
 
 
 def _comb_strategy(tier):
     @st.composite
     def build(draw):
-        B = draw(st.integers(1, 5))
-        big = draw(st.booleans())
-        lengths = draw(st.lists(st.integers(0, 66 if big else 20), min_size=B, max_size=B))
-        counts = [draw(st.one_of(st.integers(0, x), st.integers(0, x + 2))) for x in lengths]
-        small = draw(st.lists(st.integers(0, 6), min_size=B, max_size=B))
-        scount = [draw(st.integers(0, x)) for x in small]
-        return {"lengths": lengths, "counts": counts, "small": small, "scount": scount,
-                "broadcast": draw(st.sampled_from(["none", "length_scalar", "count_scalar"]))}
+        k = draw(_K)
+        big = draw(st.integers(0, 4)) == 0
+        if big:
+            # number of (length, count) pairs across the thresholds, from a rule (see _comb_pairs)
+            case = {"B": draw(_thresh(k, 2049 if tier == "thorough" else 1025)), "big": "B",
+                    "rule": [draw(st.integers(1, 30)), draw(st.integers(0, 30)), draw(st.sampled_from([20, 66, 66]))],
+                    "broadcast": draw(st.sampled_from(["none", "none", "length_scalar", "count_scalar"]))}
+        else:
+            B = draw(st.integers(1, 5))
+            bigl = draw(st.booleans())
+            lengths = draw(st.lists(st.integers(0, 66 if bigl else 20), min_size=B, max_size=B))
+            counts = [draw(st.one_of(st.integers(0, x), st.integers(0, x + 2))) for x in lengths]
+            small = draw(st.lists(st.integers(0, 6), min_size=B, max_size=B))
+            scount = [draw(st.integers(0, x)) for x in small]
+            case = {"lengths": lengths, "counts": counts, "small": small, "scount": scount,
+                    "broadcast": draw(st.sampled_from(["none", "length_scalar", "count_scalar"]))}
+        lay = draw(st.sampled_from(["contig", "contig", "strided", "offset", "expanded", "matrix_t"]))
+        if lay != "contig":
+            case["layout"] = lay
+        return case
 
     return build()
 
 
+def _comb_pairs(case):
+    if "rule" not in case:
+        return list(case["lengths"]), list(case["counts"]), list(case["small"]), list(case["scount"])
+    a, c, lmax = case["rule"]
+    B = case["B"]
+    ln = [(a * b + c + b // 7) % (lmax + 1) for b in range(B)]
+    ct = [(c * b + a + (b * b) // 11) % (x + 3) for b, x in enumerate(ln)]
+    nb = min(B, 129)  # the tensor-form enumeration materialises B * 2^(max length + 1) rows
+    sm = [(a * b + c) % 7 for b in range(nb)]
+    sc = [(c * b + a + b // 3) % (x + 1) for b, x in enumerate(sm)]
+    return ln, ct, sm, sc
+
+
 @subcheck("C19", "combinatorics_mixed", _comb_strategy, 400, 8000,
-          doc="binomial_coefficient on generated vectors of mixed lengths <= 66 (both internal branches, count possibly > length, scalar broadcasting) == math.comb; tensor form of enumerate_binary_sequences_with_cardinality: binom == math.comb and support[b, :binom[b], :length[b]] is the set of combinations",
-          required_classes=["max_length_gt_20", "max_length_le_20", "count_gt_length"])
+          doc="binomial_coefficient on generated vectors of mixed lengths <= 66 (both internal branches, count possibly > length, scalar broadcasting) == math.comb; tensor form of enumerate_binary_sequences_with_cardinality: binom == math.comb and support[b, :binom[b], :length[b]] is the set of combinations; 1 case in 5 with 15..1025 (2049) pairs from a rule (129 for the tensor-form enumeration); length / count tensors as strided / offset / expanded / transposed 2-D views",
+          required_classes=["max_length_gt_20", "max_length_le_20", "count_gt_length", "big_B",
+                            "layout_strided", "layout_offset", "layout_expanded", "layout_matrix_t"])
 def _comb_mixed_check(case):
     import torch
     from pydrobert.torch import functional as F
 
-    ln, ct = list(case["lengths"]), list(case["counts"])
+    ln, ct, sm, sc = _comb_pairs(case)
+    lay = case.get("layout")
+    if lay == "expanded":
+        ln, ct, sm, sc = [ln[0]] * len(ln), [ct[0]] * len(ct), [sm[0]] * len(sm), [sc[0]] * len(sc)
+
+    def ten(xs):
+        t = torch.tensor(xs)
+        if lay == "matrix_t":
+            k = 3 if len(xs) % 3 == 0 else 1
+            return t.view(k, len(xs) // k).t()  # (n / k, k), column-major
+        return _vec_layout(t, lay)
+
+    def flat(xs):  # the logical (row-major) order of ten(xs)
+        return ten(xs).reshape(-1).tolist()
+
     if case["broadcast"] == "length_scalar":
         ln = [ln[0]] * len(ln)
-        L, C = torch.tensor(ln[0]), torch.tensor(ct)
+        L, C = torch.tensor(ln[0]), ten(ct)
     elif case["broadcast"] == "count_scalar":
         ct = [ct[0]] * len(ct)
-        L, C = torch.tensor(ln), torch.tensor(ct[0])
+        L, C = ten(ln), torch.tensor(ct[0])
     else:
-        L, C = torch.tensor(ln), torch.tensor(ct)
+        L, C = ten(ln), ten(ct)
     got = F.binomial_coefficient(L, C)
-    exp = [math.comb(a, b) for a, b in zip(ln, ct)]
-    require(got.reshape(-1).tolist() == exp, "binomial_coefficient != math.comb", got.tolist(), exp)
-    sm, sc = case["small"], case["scount"]
-    sup, binom = F.enumerate_binary_sequences_with_cardinality(torch.tensor(sm), torch.tensor(sc))
-    expb = [math.comb(a, b) for a, b in zip(sm, sc)]
-    require(binom.tolist() == expb, "tensor form: binom != math.comb", binom.tolist(), expb)
-    require(tuple(sup.shape) == (len(sm), max(expb), max(sm)), "tensor form: support shape", list(sup.shape), [len(sm), max(expb), max(sm)])
-    for i, (a, b) in enumerate(zip(sm, sc)):
-        rows = [tuple(int(x) for x in r[:a]) for r in sup[i, :expb[i]].tolist()]
+    exp = [math.comb(a, b) for a, b in zip(flat(ln), flat(ct))]
+    want_shape = tuple(torch.broadcast_shapes(L.shape, C.shape))
+    require(tuple(got.shape) == want_shape, "binomial_coefficient: shape is not the broadcast shape", list(got.shape), list(want_shape))
+    if got.reshape(-1).tolist() != exp:
+        bad = [i for i, (x, y) in enumerate(zip(got.reshape(-1).tolist(), exp)) if x != y][:5]
+        require(False, "binomial_coefficient != math.comb at flat positions %s (length, count = %s)" % (bad, [(flat(ln)[i], flat(ct)[i]) for i in bad]),
+                [got.reshape(-1)[i].item() for i in bad], [exp[i] for i in bad])
+    SL, SC = ten(sm), ten(sc)
+    sup, binom = F.enumerate_binary_sequences_with_cardinality(SL, SC)
+    fsm, fsc = flat(sm), flat(sc)
+    expb = [math.comb(a, b) for a, b in zip(fsm, fsc)]
+    require(binom.reshape(-1).tolist() == expb, "tensor form: binom != math.comb", binom.reshape(-1).tolist()[:20], expb[:20])
+    require(tuple(sup.shape) == tuple(SL.shape) + (max(expb), max(fsm)), "tensor form: support shape", list(sup.shape),
+            list(SL.shape) + [max(expb), max(fsm)])
+    sup2 = sup.reshape(len(fsm), max(expb), max(fsm))
+    for i, (a, b) in enumerate(zip(fsm, fsc)):
+        rows = [tuple(int(x) for x in r[:a]) for r in sup2[i, :expb[i]].tolist()]
         expect = {tuple(1 if j in cc else 0 for j in range(a)) for cc in itertools.combinations(range(a), b)}
         require(len(rows) == len(set(rows)) and set(rows) == expect,
                 "tensor form: support[%d, :binom, :length] is not the set of combinations (length=%d, count=%d)" % (i, a, b), rows, sorted(expect))
     classes = ["max_length_gt_20" if max(ln) > 20 else "max_length_le_20"]
     if any(b > a for a, b in zip(ln, ct)):
         classes.append("count_gt_length")
+    if case.get("big"):
+        classes += ["big_B", _size_class(len(ln))]
+    if lay:
+        classes.append("layout_" + lay)
     return Info(nontrivial=max(ln) >= 2, classes=classes)
+
+
+# ------------------------------------------------------------------ K. every threshold, every run
+#
+# The generated sub-checks above pick their sizes through Hypothesis, which re-uses few distinct values per run
+# (one run in three missed a whole size band).  This sub-check enumerates, deterministically, one case per
+# threshold and dimension for each of them and hands it to the same check functions; the class labels are
+# prefixed with the name of the sub-check they exercise.
+
+
+def _r3(i):
+    return {"rule": [1 + i % 19, (3 * i + 1) % 20, (7 * i + 2) % 40]}
+
+
+def _cyc(xs, i):
+    return xs[i % len(xs)]
+
+
+def _grid_extras(case, i, S):
+    mc = case["mc"]
+    case["rot"] = [1 + (i + m) % max(S - 1, 1) for m in range(mc)]
+    lay = _cyc(LAYOUTS, i)
+    if lay != "contig":
+        case["sample_layout"] = lay
+    lay = _cyc(LAYOUTS, i // 3 + 1)
+    if lay != "contig":
+        case["f_layout"] = lay
+    if i % 2:
+        case["reuse"] = True
+    return case
+
+
+def _size_grid(tier):
+    thorough = tier == "thorough"
+    out = []
+
+    def upto(limit, lo=0):
+        return [x for x in THRESH if lo <= x <= limit]
+
+    # direct / importance: batch, categories
+    for sub in ("direct_exact", "importance_exact"):
+        for i, B in enumerate(upto(1025 if thorough else 257)):
+            kind = _cyc(KINDS, i)
+            size = 1 if kind == "bern_batch" else 1 + i % 2 if kind == "bern_joint" else 2 + i % 2
+            case = {"kind": kind, "B": B, "size": size, "is_log": i % 2 == 0, "mc": 1 + (i // 2) % 2, "big": "B",
+                    "dtype": _cyc(["float32", "float64", "float32"], i), "logits": _r3(i), "f": _r3(i + 5)}
+            if sub == "direct_exact":
+                case["cv"] = _cyc([None, dict(_r3(i + 9), const=False), dict(_r3(i + 9), const=True)], i)
+            else:
+                case.update({"q_logits": _r3(i + 3), "log_scale": _cyc([0.0, -1.0, 0.5], i), "same_object": i % 4 == 3})
+                if case["same_object"]:
+                    case["q_logits"] = case["logits"]
+            out.append({"sub": sub, "case": _grid_extras(case, i, _nspace(kind, size))})
+        sizes = [("cat", v) for v in upto(257 if thorough else 65)] + [("bern_joint", n) for n in ((4, 5, 6) if thorough else (4, 5))]
+        for i, (fam, size) in enumerate(sizes):
+            kind = "bern_joint" if fam == "bern_joint" else _cyc(["cat_index", "cat_onehot"], i)
+            case = {"kind": kind, "B": 1 + i % 2, "size": size, "is_log": i % 2 == 1, "mc": 1, "big": "S",
+                    "dtype": _cyc(["float32", "float64"], i), "logits": _r3(i + 1), "f": _r3(i + 7)}
+            if sub == "direct_exact":
+                case["cv"] = _cyc([dict(_r3(i + 2), const=False), None], i)
+            else:
+                case.update({"q_logits": _r3(i + 4), "log_scale": _cyc([0.0, 0.5], i), "same_object": False})
+            out.append({"sub": sub, "case": _grid_extras(case, i, _nspace(kind, size))})
+    # enumeration: categories, batch
+    for i, size in enumerate(upto(2049 if thorough else 1025)):
+        case = {"kind": _cyc(["cat_index", "cat_onehot"], i), "B": 1 + i % 2, "size": size, "is_log": i % 2 == 0, "mc": 1, "big": "S",
+                "dtype": _cyc(["float32", "float64"], i // 2), "logits": _r3(i), "f": _r3(i + 3)}
+        if i % 3:
+            case["f_layout"] = _cyc(LAYOUTS[1:], i)
+        out.append({"sub": "enumerate_exact", "case": case})
+    for i, B in enumerate(upto(1025 if thorough else 257)):
+        kind = _cyc(["bern_batch", "cat_index", "cat_onehot"], i)
+        out.append({"sub": "enumerate_exact", "case": {"kind": kind, "B": B, "size": 1 if kind == "bern_batch" else 2 + i % 3, "is_log": i % 2 == 1,
+                                                       "mc": 1, "big": "B", "dtype": "float32", "logits": _r3(i + 2), "f": _r3(i + 6)}})
+    # Metropolis-Hastings: number of samples
+    for i, mc in enumerate(upto(2049 if thorough else 1025)):
+        kind = _cyc(KINDS, i)
+        B = 1 + i % 2
+        size = 1 if kind == "bern_batch" else 1 + i % 3 if kind == "bern_joint" else 2 + i % 3
+        S = _nspace(kind, size)
+        lg = _rule_rows(_r3(i), B, 1 if kind == "bern_batch" else size)
+        case = {"kind": kind, "B": B, "size": size, "mc": mc, "burn_in": _cyc([0, 1, mc // 2, mc - 1, max(0, mc - 1024), 16 % mc], i),
+                "init": _cyc(["drawn", "given", "given_with_leading_1"], i), "is_log": i % 2 == 0, "dtype": "float32",
+                "logits": [r[0] for r in lg] if kind == "bern_batch" else lg, "f": _rule_rows(_r3(i + 4), B, S),
+                "initial": [(i + b) % S for b in range(B)], "uniforms": [0, TWO24 - 1, 1, (i * 104729) % TWO24, TWO24 // 2],
+                "same_object": i % 2 == 1, "big": "mc", "proposals": _r3(i + 1)}
+        if i % 3 == 0:
+            case["second_call"] = _r3(i + 8)
+        if i % 4:
+            case["sample_layout"] = _cyc(LAYOUTS[1:], i)
+        out.append({"sub": "imh_accepts_all", "case": case})
+    # relaxed distributions: batch, categories
+    grid = [("bernoulli", B, 1, "B") for B in upto(2049 if thorough else 1025)]
+    grid += [("categorical", B, 2 + j % 3, "B") for j, B in enumerate(upto(257 if thorough else 129))]
+    grid += [("categorical", 1 + j % 3, V, "V") for j, V in enumerate(upto(2049 if thorough else 1025))]
+    for i, (which, B, V, big) in enumerate(grid):
+        case = {"which": which, "B": B, "V": V, "dtype": _cyc(["float32", "float64"], i), "param": _cyc(["logits", "probs", "logits"], i),
+                "params": _r3(i), "mc": 1 + i % 2, "big": big, "validate": i % 2 == 0,
+                "u": [0, (i * 7919) % TWO24, TWO24 - 1, 1, TWO24 // 2, (i * 104729 + 11) % TWO24, 12345, 999983][: 3 + i % 6],
+                "v": [TWO24 - 1, 0, (i * 15485863) % TWO24, 1, TWO24 // 2, 4242421][: 2 + i % 5]}
+        lay = _cyc(["contig", "transposed", "offset", "expanded"], i)
+        if lay != "contig":
+            case["param_layout"] = lay
+        lay = _cyc(LAYOUTS, i // 2)
+        if lay != "contig":
+            case["b_layout"] = lay
+        out.append({"sub": "relaxed_identities", "case": case})
+    # relaxation-based estimators: batch
+    for i, B in enumerate(upto(1025 if thorough else 257, lo=63)):
+        out.append({"sub": "relaxed_quadrature", "case": {
+            "B": B, "estimator": "st", "is_log": i % 2 == 0, "dtype": _cyc(["float32", "float64"], i), "param": _cyc(["probs", "logits"], i // 2),
+            "j": {"rule": [1 + i, (5 * i) % 63]}, "f": _r3(i), "h": [0.0, 0.0, 0.0], "eta": 1.0, "temp": 1.0, "big": "B",
+            **({"param_layout": _cyc(["strided", "expanded"], i)} if i % 3 else {})}})
+    for i, B in enumerate([15, 16, 17] + ([31, 32, 33] if thorough else [])):
+        out.append({"sub": "relaxed_quadrature", "case": {
+            "B": B, "estimator": _cyc(["relax", "rebar"], i), "is_log": i % 2 == 1, "dtype": _cyc(["float64", "float32"], i), "param": "probs",
+            "j": {"rule": [3 + i, (11 * i) % 63]}, "f": _r3(i + 2), "h": [0.25, -0.5, 0.5], "eta": _cyc([1.0, 0.5], i), "temp": _cyc([1.0, 0.5], i), "big": "B"}})
+    # fixed-cardinality sampling: batch
+    for i, B in enumerate(upto(1025 if thorough else 257)):
+        case = {"totals": {"rule": [1 + i % 19, (3 * i) % 20, _cyc([8, 16, 40], i)]}, "givens": None, "B": B, "big": "B",
+                "shape": _cyc(["vector", "matrix", "matrix_t"], i), "out_extra": _cyc([None, 0, 1, 2], i), "seed": 1000 + 17 * i,
+                "route": _cyc(["dist", "functional"], i), "ns": 1 + i % 2}
+        if i % 3:
+            case["count_layout"] = _cyc(["strided", "offset"], i)
+        if case["route"] == "dist" and i % 4 == 0:
+            case["expand"] = 1 + i % 3
+        out.append({"sub": "srswor_batch", "case": case})
+    # binomial coefficients: number of pairs
+    for i, B in enumerate(upto(2049 if thorough else 1025)):
+        case = {"B": B, "big": "B", "rule": [1 + i % 29, (5 * i) % 30, _cyc([20, 66, 66], i)], "broadcast": _cyc(["none", "none", "length_scalar", "count_scalar"], i)}
+        if i % 2:
+            case["layout"] = _cyc(["strided", "offset", "matrix_t"], i)
+        out.append({"sub": "combinatorics_mixed", "case": case})
+    return out
+
+
+_GRID_CHECKS = {"direct_exact": _direct_check, "importance_exact": _is_check, "enumerate_exact": _enum_check,
+                "imh_accepts_all": _imh_check, "relaxed_identities": _relaxed_dist_check, "relaxed_quadrature": _relaxed_check,
+                "srswor_batch": _srswor_batch_check, "combinatorics_mixed": _comb_mixed_check}
+
+
+@subcheck("C19", "size_grid", _size_grid, 0, 0, exhaustive=True,
+          doc="deterministic grid: one rule-expanded case per threshold 15..2049 (up to each sub-check's tier limit) and per unbounded dimension (batch, categories, Metropolis-Hastings samples, count pairs), handed to the check functions of direct_exact, importance_exact, enumerate_exact, imh_accepts_all, relaxed_identities, relaxed_quadrature, srswor_batch and combinatorics_mixed; layouts / rotation / reuse cycle with the index; class labels are prefixed with the sub-check's name",
+          required_classes=[s_ + ":" + c for s_ in ("direct_exact", "importance_exact", "enumerate_exact", "relaxed_identities", "srswor_batch")
+                            for c in ("size_15_65", "size_ge_127")]
+          + ["enumerate_exact:size_ge_1023", "imh_accepts_all:size_ge_1023", "relaxed_identities:size_ge_1023", "combinatorics_mixed:size_ge_1023",
+             "relaxed_quadrature:size_ge_127", "direct_exact:big_S", "importance_exact:big_S"])
+def _grid_check(case):
+    info = _GRID_CHECKS[case["sub"]](case["case"])
+    return Info(nontrivial=info.nontrivial, classes=[case["sub"] + ":" + c for c in info.classes])
